@@ -5,5 +5,1849 @@ import DimModel.Lib.Heap
 namespace DimModel
 namespace Heap
 
+/-! ### definitions used by the statements of Props/C15.lean (moved here verbatim) -/
+
+/-- the references an object holds -/
+def refs : Obj → List Ref
+  | .buf _ => []
+  | .mlist _ => []
+  | .dict kv => kv.filterMap fun e => match e.2 with | .list r => some r | .atom _ => none
+  | .axis _ labels _ attrs => [labels, attrs]
+  | .arr vals _ _ axes attrs => vals :: attrs :: axes
+
+/-- well-formed heap: no dangling reference, every reference has the type its holder expects -/
+def WFObj (h : H) : Obj → Prop
+  | .buf _ => True
+  | .mlist _ => True
+  | .dict kv => ∀ e ∈ kv, match e.2 with
+      | .atom _ => True
+      | .list r => ∃ items, h[r]? = some (.mlist items)
+  | .axis _ labels _ attrs => (∃ c, h[labels]? = some (.buf c)) ∧ (∃ kv, h[attrs]? = some (.dict kv))
+  | .arr vals _ _ axes attrs =>
+      (∃ c, h[vals]? = some (.buf c)) ∧ (∃ kv, h[attrs]? = some (.dict kv)) ∧
+      ∀ a ∈ axes, ∃ n l v t, h[a]? = some (.axis n l v t)
+
+def WF (h : H) : Prop := ∀ o ∈ h, WFObj h o
+
+/-- the live arrays are arrays of the heap -/
+def EnvOK (s : St) : Prop := ∀ r ∈ s.env, ∃ v w sh ax t, s.h[r]? = some (.arr v w sh ax t)
+
+/-- separation at `n`: objects below `n` refer below `n`, objects from `n` on refer from `n` on -/
+def Sep (n : Nat) (h : H) : Prop :=
+  ∀ i o, h[i]? = some o → (i < n → ∀ r ∈ refs o, r < n) ∧ (n ≤ i → ∀ r ∈ refs o, n ≤ r)
+
+/-- a sequence of mutations, each through some array -/
+def mutateAll (h : H) (ms : List (Ref × Mut)) : H := ms.foldl (fun hh rm => mutate hh rm.1 rm.2) h
+
+/-! ### basic facts: allocation, growth -/
+
+def Grows (h h' : H) : Prop := ∃ new, h' = h ++ new
+
+theorem Grows.refl (h : H) : Grows h h := ⟨[], by simp⟩
+
+theorem Grows.trans {a b c : H} : Grows a b → Grows b c → Grows a c := by
+  rintro ⟨x, rfl⟩ ⟨y, rfl⟩
+  exact ⟨x ++ y, by simp⟩
+
+theorem Grows.alloc (h : H) (o : Obj) : Grows h (alloc h o).1 := ⟨[o], rfl⟩
+
+theorem Grows.append (h new : H) : Grows h (h ++ new) := ⟨new, rfl⟩
+
+theorem Grows.get {h h' : H} {i : Nat} {o : Obj} (hg : Grows h h') (hi : h[i]? = some o) :
+    h'[i]? = some o := by
+  obtain ⟨new, rfl⟩ := hg
+  have hlt : i < h.length := by
+    cases Nat.lt_or_ge i h.length with
+    | inl h1 => exact h1
+    | inr h1 => rw [List.getElem?_eq_none h1] at hi; cases hi
+  rw [List.getElem?_append_left hlt]; exact hi
+
+theorem Grows.le {h h' : H} (hg : Grows h h') : h.length ≤ h'.length := by
+  obtain ⟨new, rfl⟩ := hg
+  simp
+
+theorem lt_of_get {h : H} {i : Nat} {o : Obj} (hi : h[i]? = some o) : i < h.length := by
+  cases Nat.lt_or_ge i h.length with
+  | inl h1 => exact h1
+  | inr h1 => rw [List.getElem?_eq_none h1] at hi; cases hi
+
+theorem mem_refs_dict {kv : List (String × MVal)} {r : Ref} :
+    r ∈ refs (.dict kv) ↔ ∃ k, (k, MVal.list r) ∈ kv := by
+  simp only [refs, List.mem_filterMap]
+  constructor
+  · rintro ⟨⟨k, v⟩, he, hv⟩
+    cases v with
+    | atom s => simp at hv
+    | list r2 => simp at hv; subst hv; exact ⟨k, he⟩
+  · rintro ⟨k, he⟩
+    exact ⟨(k, .list r), he, rfl⟩
+
+theorem WFObj_dict {h : H} {kv : List (String × MVal)} :
+    WFObj h (.dict kv) ↔ ∀ k r, (k, MVal.list r) ∈ kv → ∃ items, h[r]? = some (.mlist items) := by
+  simp only [WFObj]
+  constructor
+  · intro hw k r he
+    exact hw (k, .list r) he
+  · intro hw e he
+    rcases e with ⟨k, v⟩
+    cases v with
+    | atom s => trivial
+    | list r => exact hw k r he
+
+theorem WFObj_mono {h h' : H} {o : Obj} (hg : Grows h h') (hw : WFObj h o) : WFObj h' o := by
+  cases o with
+  | buf c => trivial
+  | mlist c => trivial
+  | dict kv =>
+    rw [WFObj_dict] at hw ⊢
+    intro k r he
+    obtain ⟨items, hi⟩ := hw k r he
+    exact ⟨items, hg.get hi⟩
+  | axis n l v t =>
+    obtain ⟨⟨c, hc⟩, ⟨kv, hk⟩⟩ := hw
+    exact ⟨⟨c, hg.get hc⟩, ⟨kv, hg.get hk⟩⟩
+  | arr vals view shape axes attrs =>
+    obtain ⟨⟨c, hc⟩, ⟨kv, hk⟩, hax⟩ := hw
+    refine ⟨⟨c, hg.get hc⟩, ⟨kv, hg.get hk⟩, ?_⟩
+    intro a ha
+    obtain ⟨n, l, v, t, hh⟩ := hax a ha
+    exact ⟨n, l, v, t, hg.get hh⟩
+
+/-- under WF every reference of every object points into the heap -/
+theorem WFObj_refs_lt {h : H} {o : Obj} (hw : WFObj h o) : ∀ r ∈ refs o, r < h.length := by
+  intro r hr
+  cases o with
+  | buf c => simp [refs] at hr
+  | mlist c => simp [refs] at hr
+  | dict kv =>
+    rw [mem_refs_dict] at hr
+    obtain ⟨k, he⟩ := hr
+    obtain ⟨items, hi⟩ := (WFObj_dict.mp hw) k r he
+    exact lt_of_get hi
+  | axis n l v t =>
+    obtain ⟨⟨c, hc⟩, ⟨kv, hk⟩⟩ := hw
+    simp only [refs, List.mem_cons, List.not_mem_nil, or_false] at hr
+    rcases hr with rfl | rfl
+    · exact lt_of_get hc
+    · exact lt_of_get hk
+  | arr vals view shape axes attrs =>
+    obtain ⟨⟨c, hc⟩, ⟨kv, hk⟩, hax⟩ := hw
+    simp only [refs, List.mem_cons] at hr
+    rcases hr with rfl | rfl | hr
+    · exact lt_of_get hc
+    · exact lt_of_get hk
+    · obtain ⟨n, l, v, t, hh⟩ := hax r hr
+      exact lt_of_get hh
+
+/-! ### regions: a set of references closed under "refers to" -/
+
+def RClosed (S : Nat → Prop) (h : H) : Prop := ∀ i o, h[i]? = some o → S i → ∀ r ∈ refs o, S r
+
+theorem Sep.below {n : Nat} {h : H} (hs : Sep n h) : RClosed (fun i => i < n) h :=
+  fun i o hi hS => (hs i o hi).1 hS
+
+theorem Sep.above {n : Nat} {h : H} (hs : Sep n h) : RClosed (fun i => n ≤ i) h :=
+  fun i o hi hS => (hs i o hi).2 hS
+
+theorem Sep.mk2 {n : Nat} {h : H} (h1 : RClosed (fun i => i < n) h) (h2 : RClosed (fun i => n ≤ i) h) :
+    Sep n h := fun i o hi => ⟨h1 i o hi, h2 i o hi⟩
+
+theorem WF.closed {h : H} (hwf : WF h) : RClosed (fun i => i < h.length) h :=
+  fun _ o hi _ => WFObj_refs_lt (hwf o (List.mem_of_getElem? hi))
+
+/-! ### observations read inside a closed region only -/
+
+section Region
+variable {S : Nat → Prop} {h h2 : H}
+
+theorem readBuf_agree (hag : ∀ i, S i → h2[i]? = h[i]?) {r : Ref} (hr : S r) (view : List Nat) :
+    readBuf h2 r view = readBuf h r view := by
+  unfold readBuf; rw [hag r hr]
+
+theorem obsVal_agree (hag : ∀ i, S i → h2[i]? = h[i]?) {v : MVal} (hv : ∀ r, v = .list r → S r) :
+    obsVal h2 v = obsVal h v := by
+  cases v with
+  | atom s => rfl
+  | list r => simp only [obsVal]; rw [hag r (hv r rfl)]
+
+theorem obsDict_agree (hcl : RClosed S h) (hag : ∀ i, S i → h2[i]? = h[i]?) {r : Ref} (hr : S r) :
+    obsDict h2 r = obsDict h r := by
+  unfold obsDict; rw [hag r hr]
+  cases hx : h[r]? with
+  | none => rfl
+  | some o =>
+    cases o with
+    | dict kv =>
+      simp only []
+      apply List.map_congr_left
+      rintro ⟨k, v⟩ he
+      simp only []
+      rw [obsVal_agree hag]
+      intro lr hlr
+      subst hlr
+      exact hcl r _ hx hr lr (mem_refs_dict.mpr ⟨k, he⟩)
+    | _ => rfl
+
+theorem obsAxis_agree (hcl : RClosed S h) (hag : ∀ i, S i → h2[i]? = h[i]?) {r : Ref} (hr : S r) :
+    obsAxis h2 r = obsAxis h r := by
+  unfold obsAxis; rw [hag r hr]
+  cases hx : h[r]? with
+  | none => rfl
+  | some o =>
+    cases o with
+    | axis name labels view attrs =>
+      simp only []
+      have e1 : S labels := hcl r _ hx hr labels (by simp [refs])
+      have e2 : S attrs := hcl r _ hx hr attrs (by simp [refs])
+      rw [readBuf_agree hag e1, obsDict_agree hcl hag e2]
+    | _ => rfl
+
+theorem obsArr_agree (hcl : RClosed S h) (hag : ∀ i, S i → h2[i]? = h[i]?) {q : Ref} (hq : S q) :
+    obsArr h2 q = obsArr h q := by
+  unfold obsArr; rw [hag q hq]
+  cases hx : h[q]? with
+  | none => rfl
+  | some o =>
+    cases o with
+    | arr vals view shape axes attrs =>
+      simp only []
+      have e1 : S vals := hcl q _ hx hq vals (by simp [refs])
+      have e2 : S attrs := hcl q _ hx hq attrs (by simp [refs])
+      have h3 : ∀ a ∈ axes, S a := fun a ha => hcl q _ hx hq a (by simp [refs, ha])
+      rw [readBuf_agree hag e1, obsDict_agree hcl hag e2]
+      have : axes.map (obsAxis h2) = axes.map (obsAxis h) :=
+        List.map_congr_left fun a ha => obsAxis_agree hcl hag (h3 a ha)
+      rw [this]
+    | _ => rfl
+
+end Region
+
+/-- agreement below the old length after growth -/
+theorem Grows.agree {h h' : H} (hg : Grows h h') : ∀ i, i < h.length → h'[i]? = h[i]? := by
+  obtain ⟨new, rfl⟩ := hg
+  intro i hi
+  exact List.getElem?_append_left hi
+
+theorem obsArr_grows {h h' : H} (hwf : WF h) (hg : Grows h h') {q : Ref} (hq : q < h.length) :
+    obsArr h' q = obsArr h q :=
+  obsArr_agree (S := fun i => i < h.length) hwf.closed hg.agree hq
+
+theorem obsAxis_grows {h h' : H} (hwf : WF h) (hg : Grows h h') {q : Ref} (hq : q < h.length) :
+    obsAxis h' q = obsAxis h q :=
+  obsAxis_agree (S := fun i => i < h.length) hwf.closed hg.agree hq
+
+theorem obsDict_grows {h h' : H} (hwf : WF h) (hg : Grows h h') {q : Ref} (hq : q < h.length) :
+    obsDict h' q = obsDict h q :=
+  obsDict_agree (S := fun i => i < h.length) hwf.closed hg.agree hq
+
+theorem readBuf_grows {h h' : H} (hg : Grows h h') {q : Ref} (hq : q < h.length) (view : List Nat) :
+    readBuf h' q view = readBuf h q view :=
+  readBuf_agree (S := fun i => i < h.length) hg.agree hq view
+
+/-! ### in-place updates -/
+
+def kind : Obj → Nat
+  | .buf _ => 0
+  | .mlist _ => 1
+  | .dict _ => 2
+  | .axis _ _ _ _ => 3
+  | .arr _ _ _ _ _ => 4
+
+theorem get_buf_iff {h : H} {r : Ref} : (∃ c, h[r]? = some (.buf c)) ↔ (h[r]?).map kind = some 0 := by
+  cases h[r]? with
+  | none => simp
+  | some o => cases o <;> simp [kind]
+
+theorem get_mlist_iff {h : H} {r : Ref} : (∃ c, h[r]? = some (.mlist c)) ↔ (h[r]?).map kind = some 1 := by
+  cases h[r]? with
+  | none => simp
+  | some o => cases o <;> simp [kind]
+
+theorem get_dict_iff {h : H} {r : Ref} : (∃ c, h[r]? = some (.dict c)) ↔ (h[r]?).map kind = some 2 := by
+  cases h[r]? with
+  | none => simp
+  | some o => cases o <;> simp [kind]
+
+theorem get_axis_iff {h : H} {r : Ref} :
+    (∃ n l v t, h[r]? = some (.axis n l v t)) ↔ (h[r]?).map kind = some 3 := by
+  cases h[r]? with
+  | none => simp
+  | some o => cases o <;> simp [kind]
+
+theorem WFObj_kind {h h' : H} {o : Obj} (hk : ∀ r : Nat, (h'[r]?).map kind = (h[r]?).map kind)
+    (hw : WFObj h o) : WFObj h' o := by
+  cases o with
+  | buf c => trivial
+  | mlist c => trivial
+  | dict kv =>
+    rw [WFObj_dict] at hw ⊢
+    intro k r he
+    have := hw k r he
+    rw [get_mlist_iff] at this ⊢
+    rw [hk]; exact this
+  | axis n l v t =>
+    obtain ⟨h1, h2⟩ := hw
+    rw [get_buf_iff] at h1; rw [get_dict_iff] at h2
+    refine ⟨?_, ?_⟩
+    · rw [get_buf_iff, hk]; exact h1
+    · rw [get_dict_iff, hk]; exact h2
+  | arr vals view shape axes attrs =>
+    obtain ⟨h1, h2, h3⟩ := hw
+    rw [get_buf_iff] at h1; rw [get_dict_iff] at h2
+    refine ⟨?_, ?_, ?_⟩
+    · rw [get_buf_iff, hk]; exact h1
+    · rw [get_dict_iff, hk]; exact h2
+    · intro a ha
+      have := h3 a ha
+      rw [get_axis_iff] at this ⊢
+      rw [hk]; exact this
+
+/-- a single type-preserving, reference-non-increasing in-place update of the (non-array) object at `a` -/
+def Upd (h h' : H) (a : Ref) : Prop :=
+  ∃ o o', h[a]? = some o ∧ h' = h.set a o' ∧ kind o' = kind o ∧ kind o ≠ 4 ∧
+    (∀ x ∈ refs o', x ∈ refs o) ∧ (WF h → WFObj h o')
+
+theorem Upd.length {h h' : H} {a : Ref} (hu : Upd h h' a) : h'.length = h.length := by
+  obtain ⟨o, o', _, rfl, _⟩ := hu
+  simp
+
+theorem Upd.get_ne {h h' : H} {a : Ref} (hu : Upd h h' a) {i : Nat} (hi : i ≠ a) : h'[i]? = h[i]? := by
+  obtain ⟨o, o', _, rfl, _⟩ := hu
+  rw [List.getElem?_set]
+  simp [Ne.symm hi]
+
+theorem Upd.get_self {h h' : H} {a : Ref} (hu : Upd h h' a) :
+    ∃ o o', h[a]? = some o ∧ h'[a]? = some o' ∧ kind o' = kind o ∧ kind o ≠ 4 ∧
+      (∀ x ∈ refs o', x ∈ refs o) ∧ (WF h → WFObj h o') := by
+  obtain ⟨o, o', ho, rfl, hk, h4, hr, hw⟩ := hu
+  refine ⟨o, o', ho, ?_, hk, h4, hr, hw⟩
+  rw [List.getElem?_set]
+  simp [lt_of_get ho]
+
+theorem Upd.kind_eq {h h' : H} {a : Ref} (hu : Upd h h' a) (r : Nat) :
+    (h'[r]?).map kind = (h[r]?).map kind := by
+  by_cases hra : r = a
+  · subst hra
+    obtain ⟨o, o', ho, ho', hk, _⟩ := hu.get_self
+    rw [ho, ho']; simp [hk]
+  · rw [hu.get_ne hra]
+
+theorem Upd.refs_sub {h h' : H} {a : Ref} (hu : Upd h h' a) {i : Nat} {o' : Obj} (hi : h'[i]? = some o') :
+    ∃ o, h[i]? = some o ∧ ∀ x ∈ refs o', x ∈ refs o := by
+  by_cases hia : i = a
+  · subst hia
+    obtain ⟨o, o2, ho, ho', _, _, hr, _⟩ := hu.get_self
+    rw [ho'] at hi; cases hi
+    exact ⟨o, ho, hr⟩
+  · rw [hu.get_ne hia] at hi
+    exact ⟨o', hi, fun _ hx => hx⟩
+
+theorem Upd.rclosed {h h' : H} {a : Ref} (hu : Upd h h' a) {S : Nat → Prop} (hcl : RClosed S h) :
+    RClosed S h' := by
+  intro i o' hi hS r hr
+  obtain ⟨o, ho, hsub⟩ := hu.refs_sub hi
+  exact hcl i o ho hS r (hsub r hr)
+
+theorem Upd.wf {h h' : H} {a : Ref} (hu : Upd h h' a) (hwf : WF h) : WF h' := by
+  intro o' ho'
+  obtain ⟨i, hi⟩ := List.getElem?_of_mem ho'
+  apply WFObj_kind (h := h) hu.kind_eq
+  by_cases hia : i = a
+  · subst hia
+    obtain ⟨o, o2, ho, ho2, _, _, _, hw⟩ := hu.get_self
+    rw [ho2] at hi; cases hi
+    exact hw hwf
+  · rw [hu.get_ne hia] at hi
+    exact hwf o' (List.mem_of_getElem? hi)
+
+theorem Upd.arr {h h' : H} {a : Ref} (hu : Upd h h' a) {i : Nat} {v w sh ax t}
+    (hi : h[i]? = some (.arr v w sh ax t)) : h'[i]? = some (.arr v w sh ax t) := by
+  by_cases hia : i = a
+  · subst hia
+    obtain ⟨o, o2, ho, _, _, h4, _⟩ := hu.get_self
+    rw [ho] at hi; cases hi
+    simp [kind] at h4
+  · rw [hu.get_ne hia]; exact hi
+
+/-! primitives -/
+
+theorem writeBuf_upd (h : H) (r p : Nat) (v : Int) : writeBuf h r p v = h ∨ Upd h (writeBuf h r p v) r := by
+  unfold writeBuf
+  cases hx : h[r]? with
+  | none => left; rfl
+  | some o =>
+    cases o with
+    | buf cells =>
+      simp only []
+      split
+      · right
+        exact ⟨_, _, hx, rfl, rfl, by simp [kind], by simp [refs], fun _ => trivial⟩
+      · left; rfl
+    | _ => left; rfl
+
+theorem dictSet_upd (h : H) (r : Nat) (key s : String) :
+    dictSet h r key (.atom s) = h ∨ Upd h (dictSet h r key (.atom s)) r := by
+  unfold dictSet
+  cases hx : h[r]? with
+  | none => left; rfl
+  | some o =>
+    cases o with
+    | dict kv =>
+      simp only []
+      right
+      split
+      · refine ⟨_, _, hx, rfl, rfl, by simp [kind], ?_, ?_⟩
+        · intro x hx2
+          rw [mem_refs_dict] at hx2 ⊢
+          obtain ⟨k, hk⟩ := hx2
+          rw [List.mem_map] at hk
+          obtain ⟨e, he, heq⟩ := hk
+          split at heq
+          · cases heq
+          · subst heq; exact ⟨k, he⟩
+        · intro hwf
+          have hw := hwf _ (List.mem_of_getElem? hx)
+          rw [WFObj_dict] at hw ⊢
+          intro k lr hk
+          rw [List.mem_map] at hk
+          obtain ⟨e, he, heq⟩ := hk
+          split at heq
+          · cases heq
+          · subst heq; exact hw k lr he
+      · refine ⟨_, _, hx, rfl, rfl, by simp [kind], ?_, ?_⟩
+        · intro x hx2
+          rw [mem_refs_dict] at hx2 ⊢
+          obtain ⟨k, hk⟩ := hx2
+          rw [List.mem_append] at hk
+          rcases hk with hk | hk
+          · exact ⟨k, hk⟩
+          · simp at hk
+        · intro hwf
+          have hw := hwf _ (List.mem_of_getElem? hx)
+          rw [WFObj_dict] at hw ⊢
+          intro k lr hk
+          rw [List.mem_append] at hk
+          rcases hk with hk | hk
+          · exact hw k lr hk
+          · simp at hk
+    | _ => left; rfl
+
+theorem dictAppend_upd (h : H) (r : Nat) (key item : String) :
+    dictAppend h r key item = h ∨
+      ∃ lr, (∃ kv, h[r]? = some (.dict kv) ∧ lr ∈ refs (.dict kv)) ∧ Upd h (dictAppend h r key item) lr := by
+  unfold dictAppend
+  cases hx : h[r]? with
+  | none => left; rfl
+  | some o =>
+    cases o with
+    | dict kv =>
+      simp only []
+      split
+      · next k lr hf =>
+        have hmem := List.mem_of_find?_eq_some hf
+        cases hy : h[lr]? with
+        | none => left; rfl
+        | some o2 =>
+          cases o2 with
+          | mlist items =>
+            right
+            refine ⟨lr, ⟨kv, rfl, mem_refs_dict.mpr ⟨k, hmem⟩⟩, ?_⟩
+            exact ⟨_, _, hy, rfl, rfl, by simp [kind], by simp [refs], fun _ => trivial⟩
+          | _ => left; rfl
+      · left; rfl
+    | _ => left; rfl
+
+theorem getD_eq_or_mem (l : List Nat) (d x : Nat) : l.getD d x = x ∨ l.getD d x ∈ l := by
+  rw [List.getD_eq_getElem?_getD]
+  cases hx : l[d]? with
+  | none => left; rfl
+  | some y => right; exact List.mem_of_getElem? hx
+
+/-- every mutation is the identity or one update of an object reachable from the array -/
+theorem mutate_cases (h : H) (r : Ref) (m : Mut) :
+    mutate h r m = h ∨ ∃ a, Upd h (mutate h r m) a ∧ ∀ S : Nat → Prop, RClosed S h → S r → S a := by
+  unfold mutate
+  cases hx : h[r]? with
+  | none => left; rfl
+  | some o =>
+    cases o with
+    | arr vals view shape axes attrs =>
+      have hvals : ∀ S : Nat → Prop, RClosed S h → S r → S vals :=
+        fun S hcl hr => hcl r _ hx hr vals (by simp [refs])
+      have hattrs : ∀ S : Nat → Prop, RClosed S h → S r → S attrs :=
+        fun S hcl hr => hcl r _ hx hr attrs (by simp [refs])
+      have haxes : ∀ a ∈ axes, ∀ S : Nat → Prop, RClosed S h → S r → S a :=
+        fun a ha S hcl hr => hcl r _ hx hr a (by simp [refs, ha])
+      have hax : ∀ d o2, h[axes.getD d h.length]? = some o2 →
+          ∀ S : Nat → Prop, RClosed S h → S r → S (axes.getD d h.length) := by
+        intro d o2 ho2
+        rcases getD_eq_or_mem axes d h.length with he | he
+        · rw [he] at ho2; simp at ho2
+        · exact haxes _ he
+      cases m with
+      | setVal pos v =>
+        simp only []
+        split
+        · rcases writeBuf_upd h vals (view.getD pos 0) v with e | e
+          · left; exact e
+          · right; exact ⟨vals, e, hvals⟩
+        · left; rfl
+      | setAttr key v =>
+        simp only []
+        rcases dictSet_upd h attrs key v with e | e
+        · left; exact e
+        · right; exact ⟨attrs, e, hattrs⟩
+      | appendAttr key item =>
+        simp only []
+        rcases dictAppend_upd h attrs key item with e | ⟨lr, ⟨kv, hkv, hlr⟩, e⟩
+        · left; exact e
+        · right
+          exact ⟨lr, e, fun S hcl hr => hcl attrs _ hkv (hattrs S hcl hr) lr hlr⟩
+      | setLabel d i v =>
+        simp only []
+        cases hy : h[axes.getD d h.length]? with
+        | none => left; rfl
+        | some o2 =>
+          cases o2 with
+          | axis n labels lview aattrs =>
+            simp only []
+            split
+            · rcases writeBuf_upd h labels (lview.getD i 0) v with e | e
+              · left; exact e
+              · right
+                exact ⟨labels, e, fun S hcl hr => hcl _ _ hy (hax d _ hy S hcl hr) labels (by simp [refs])⟩
+            · left; rfl
+          | _ => left; rfl
+      | rename d name =>
+        simp only []
+        cases hy : h[axes.getD d h.length]? with
+        | none => left; rfl
+        | some o2 =>
+          cases o2 with
+          | axis n labels lview aattrs =>
+            right
+            refine ⟨axes.getD d h.length, ⟨_, _, hy, rfl, rfl, by simp [kind], fun x hx2 => hx2, ?_⟩,
+              hax d _ hy⟩
+            intro hwf
+            have hw : WFObj h (.axis n labels lview aattrs) := hwf _ (List.mem_of_getElem? hy)
+            exact hw
+          | _ => left; rfl
+      | setAxisAttr d key v =>
+        simp only []
+        cases hy : h[axes.getD d h.length]? with
+        | none => left; rfl
+        | some o2 =>
+          cases o2 with
+          | axis n labels lview aattrs =>
+            simp only []
+            rcases dictSet_upd h aattrs key v with e | e
+            · left; exact e
+            · right
+              exact ⟨aattrs, e, fun S hcl hr => hcl _ _ hy (hax d _ hy S hcl hr) aattrs (by simp [refs])⟩
+          | _ => left; rfl
+      | appendAxisAttr d key item =>
+        simp only []
+        cases hy : h[axes.getD d h.length]? with
+        | none => left; rfl
+        | some o2 =>
+          cases o2 with
+          | axis n labels lview aattrs =>
+            simp only []
+            rcases dictAppend_upd h aattrs key item with e | ⟨lr, ⟨kv, hkv, hlr⟩, e⟩
+            · left; exact e
+            · right
+              exact ⟨lr, e, fun S hcl hr =>
+                hcl aattrs _ hkv (hcl _ _ hy (hax d _ hy S hcl hr) aattrs (by simp [refs])) lr hlr⟩
+          | _ => left; rfl
+    | _ => left; rfl
+
+
+/-! ### consequences for `mutate` -/
+
+theorem mutate_length (h : H) (r : Ref) (m : Mut) : (mutate h r m).length = h.length := by
+  rcases mutate_cases h r m with e | ⟨a, hu, _⟩
+  · rw [e]
+  · exact hu.length
+
+theorem mutate_rclosed {S : Nat → Prop} {h : H} (hcl : RClosed S h) (r : Ref) (m : Mut) :
+    RClosed S (mutate h r m) := by
+  rcases mutate_cases h r m with e | ⟨a, hu, _⟩
+  · rw [e]; exact hcl
+  · exact hu.rclosed hcl
+
+theorem mutate_wf {h : H} (hwf : WF h) (r : Ref) (m : Mut) : WF (mutate h r m) := by
+  rcases mutate_cases h r m with e | ⟨a, hu, _⟩
+  · rw [e]; exact hwf
+  · exact hu.wf hwf
+
+theorem mutate_arr {h : H} (r : Ref) (m : Mut) {i : Nat} {v w sh ax t}
+    (hi : h[i]? = some (.arr v w sh ax t)) : (mutate h r m)[i]? = some (.arr v w sh ax t) := by
+  rcases mutate_cases h r m with e | ⟨a, hu, _⟩
+  · rw [e]; exact hi
+  · exact hu.arr hi
+
+/-- a mutation through an array of a closed region writes inside the region only -/
+theorem mutate_frame {S : Nat → Prop} {h : H} (hcl : RClosed S h) {r : Ref} (hr : S r) (m : Mut) :
+    ∀ i, ¬ S i → (mutate h r m)[i]? = h[i]? := by
+  intro i hi
+  rcases mutate_cases h r m with e | ⟨a, hu, ha⟩
+  · rw [e]
+  · apply hu.get_ne
+    intro hia
+    subst hia
+    exact hi (ha S hcl hr)
+
+theorem mutate_sep {n : Nat} {h : H} (hs : Sep n h) (r : Ref) (m : Mut) : Sep n (mutate h r m) :=
+  Sep.mk2 (mutate_rclosed hs.below r m) (mutate_rclosed hs.above r m)
+
+/-! ### locality: what a mutation does inside a closed region depends on the region only -/
+
+section Local
+variable {S : Nat → Prop} {h1 h2 : H}
+
+theorem set_agree (hl : h2.length = h1.length) (hag : ∀ i, S i → h2[i]? = h1[i]?) (a : Nat) (o : Obj) :
+    ∀ i, S i → (h2.set a o)[i]? = (h1.set a o)[i]? := by
+  intro i hi
+  rw [List.getElem?_set, List.getElem?_set, hl, hag i hi]
+
+theorem writeBuf_agree (hl : h2.length = h1.length) (hag : ∀ i, S i → h2[i]? = h1[i]?) {r : Ref} (hr : S r)
+    (p : Nat) (v : Int) : ∀ i, S i → (writeBuf h2 r p v)[i]? = (writeBuf h1 r p v)[i]? := by
+  unfold writeBuf; rw [hag r hr]
+  cases hx : h1[r]? with
+  | none => exact hag
+  | some o =>
+    cases o with
+    | buf cells =>
+      simp only []
+      split
+      · exact set_agree hl hag _ _
+      · exact hag
+    | _ => exact hag
+
+theorem dictSet_agree (hl : h2.length = h1.length) (hag : ∀ i, S i → h2[i]? = h1[i]?) {r : Ref} (hr : S r)
+    (key : String) (v : MVal) : ∀ i, S i → (dictSet h2 r key v)[i]? = (dictSet h1 r key v)[i]? := by
+  unfold dictSet; rw [hag r hr]
+  cases hx : h1[r]? with
+  | none => exact hag
+  | some o =>
+    cases o with
+    | dict kv =>
+      simp only []
+      split
+      · exact set_agree hl hag _ _
+      · exact set_agree hl hag _ _
+    | _ => exact hag
+
+theorem dictAppend_agree (hcl : RClosed S h1) (hl : h2.length = h1.length) (hag : ∀ i, S i → h2[i]? = h1[i]?)
+    {r : Ref} (hr : S r) (key item : String) :
+    ∀ i, S i → (dictAppend h2 r key item)[i]? = (dictAppend h1 r key item)[i]? := by
+  unfold dictAppend; rw [hag r hr]
+  cases hx : h1[r]? with
+  | none => exact hag
+  | some o =>
+    cases o with
+    | dict kv =>
+      simp only []
+      split
+      · next k lr hf =>
+        have hmem := List.mem_of_find?_eq_some hf
+        have hlr : S lr := hcl r _ hx hr lr (mem_refs_dict.mpr ⟨k, hmem⟩)
+        rw [hag lr hlr]
+        cases hy : h1[lr]? with
+        | none => exact hag
+        | some o2 =>
+          cases o2 with
+          | mlist items => exact set_agree hl hag _ _
+          | _ => exact hag
+      · exact hag
+    | _ => exact hag
+
+theorem mutate_agree (hcl : RClosed S h1) (hl : h2.length = h1.length) (hag : ∀ i, S i → h2[i]? = h1[i]?)
+    {r : Ref} (hr : S r) (m : Mut) : ∀ i, S i → (mutate h2 r m)[i]? = (mutate h1 r m)[i]? := by
+  unfold mutate; rw [hag r hr]
+  cases hx : h1[r]? with
+  | none => exact hag
+  | some o =>
+    cases o with
+    | arr vals view shape axes attrs =>
+      have hvals : S vals := hcl r _ hx hr vals (by simp [refs])
+      have hattrs : S attrs := hcl r _ hx hr attrs (by simp [refs])
+      -- the Axis object addressed by dimension `d` is the same on both sides
+      have hax : ∀ d, h2[axes.getD d h1.length]? = h1[axes.getD d h1.length]? ∧
+          ∀ o2, h1[axes.getD d h1.length]? = some o2 → S (axes.getD d h1.length) := by
+        intro d
+        rcases getD_eq_or_mem axes d h1.length with he | he
+        · rw [he]
+          refine ⟨?_, ?_⟩
+          · rw [List.getElem?_eq_none (Nat.le_refl _), List.getElem?_eq_none (Nat.le_of_eq hl)]
+          · intro o2 ho2; simp at ho2
+        · have : S (axes.getD d h1.length) :=
+            hcl r _ hx hr _ (List.mem_cons_of_mem _ (List.mem_cons_of_mem _ he))
+          exact ⟨hag _ this, fun _ _ => this⟩
+      cases m with
+      | setVal pos v =>
+        simp only []
+        split
+        · exact writeBuf_agree hl hag hvals _ _
+        · exact hag
+      | setAttr key v => exact dictSet_agree hl hag hattrs _ _
+      | appendAttr key item => exact dictAppend_agree hcl hl hag hattrs _ _
+      | setLabel d i v =>
+        simp only []
+        rw [hl, (hax d).1]
+        cases hy : h1[axes.getD d h1.length]? with
+        | none => exact hag
+        | some o2 =>
+          cases o2 with
+          | axis n labels lview aattrs =>
+            simp only []
+            have hl2 : S labels := hcl _ _ hy ((hax d).2 _ hy) labels (by simp [refs])
+            split
+            · exact writeBuf_agree hl hag hl2 _ _
+            · exact hag
+          | _ => exact hag
+      | rename d name =>
+        simp only []
+        rw [hl, (hax d).1]
+        cases hy : h1[axes.getD d h1.length]? with
+        | none => exact hag
+        | some o2 =>
+          cases o2 with
+          | axis n labels lview aattrs => exact set_agree hl hag _ _
+          | _ => exact hag
+      | setAxisAttr d key v =>
+        simp only []
+        rw [hl, (hax d).1]
+        cases hy : h1[axes.getD d h1.length]? with
+        | none => exact hag
+        | some o2 =>
+          cases o2 with
+          | axis n labels lview aattrs =>
+            have hl2 : S aattrs := hcl _ _ hy ((hax d).2 _ hy) aattrs (by simp [refs])
+            exact dictSet_agree hl hag hl2 _ _
+          | _ => exact hag
+      | appendAxisAttr d key item =>
+        simp only []
+        rw [hl, (hax d).1]
+        cases hy : h1[axes.getD d h1.length]? with
+        | none => exact hag
+        | some o2 =>
+          cases o2 with
+          | axis n labels lview aattrs =>
+            have hl2 : S aattrs := hcl _ _ hy ((hax d).2 _ hy) aattrs (by simp [refs])
+            exact dictAppend_agree hcl hl hag hl2 _ _
+          | _ => exact hag
+    | _ => exact hag
+
+end Local
+
+/-! ### sequences of mutations -/
+
+theorem mutateAll_cons (h : H) (rm : Ref × Mut) (ms : List (Ref × Mut)) :
+    mutateAll h (rm :: ms) = mutateAll (mutate h rm.1 rm.2) ms := rfl
+
+theorem mutateAll_nil (h : H) : mutateAll h [] = h := rfl
+
+theorem mutateAll_rclosed {S : Nat → Prop} (ms : List (Ref × Mut)) :
+    ∀ {h : H}, RClosed S h → RClosed S (mutateAll h ms) := by
+  induction ms with
+  | nil => intro h hcl; exact hcl
+  | cons rm ms ih => intro h hcl; exact ih (mutate_rclosed hcl rm.1 rm.2)
+
+/-- `S` and `T` are complementary closed regions: the mutations made through `T` are invisible in `S` -/
+theorem mutateAll_filter {S T : Nat → Prop} [DecidablePred S] (hST : ∀ i, S i → ¬ T i) (hTS : ∀ i, ¬ S i → T i)
+    (ms : List (Ref × Mut)) :
+    ∀ h1 h2 : H, RClosed S h1 → RClosed T h1 → h2.length = h1.length → (∀ i, S i → h2[i]? = h1[i]?) →
+      ∀ i, S i → (mutateAll h2 (ms.filter fun rm => decide (S rm.1)))[i]? = (mutateAll h1 ms)[i]? := by
+  induction ms with
+  | nil => intro h1 h2 _ _ _ hag; exact hag
+  | cons rm ms ih =>
+    intro h1 h2 hS hT hl hag
+    rw [mutateAll_cons]
+    by_cases hr : S rm.1
+    · rw [List.filter_cons_of_pos (by simpa using hr), mutateAll_cons]
+      apply ih
+      · exact mutate_rclosed hS _ _
+      · exact mutate_rclosed hT _ _
+      · rw [mutate_length, mutate_length, hl]
+      · exact mutate_agree hS hl hag hr rm.2
+    · rw [List.filter_cons_of_neg (by simpa using hr)]
+      apply ih
+      · exact mutate_rclosed hS _ _
+      · exact mutate_rclosed hT _ _
+      · rw [mutate_length, hl]
+      · intro i hi
+        rw [mutate_frame hT (hTS _ hr) rm.2 i (hST i hi)]
+        exact hag i hi
+
+theorem separation_gen {S T : Nat → Prop} [DecidablePred S] (hST : ∀ i, S i → ¬ T i) (hTS : ∀ i, ¬ S i → T i)
+    {h : H} (hS : RClosed S h) (hT : RClosed T h) (ms : List (Ref × Mut)) {q : Ref} (hq : S q) :
+    obsArr (mutateAll h ms) q = obsArr (mutateAll h (ms.filter fun rm => decide (S rm.1))) q :=
+  (obsArr_agree (mutateAll_rclosed ms hS) (mutateAll_filter hST hTS ms h h hS hT rfl (fun _ _ => rfl)) hq).symm
+
+
+/-! ### allocation: growth (unconditional) -/
+
+theorem foldl_grows {α β : Type} (f : H × β → α → H × β) (hf : ∀ acc a, Grows acc.1 (f acc a).1)
+    (l : List α) : ∀ (s : H) (b : β), Grows s (l.foldl f (s, b)).1 := by
+  induction l with
+  | nil => intro s b; exact Grows.refl _
+  | cons a l ih => intro s b; exact (hf (s, b) a).trans (ih (f (s, b) a).1 (f (s, b) a).2)
+
+theorem shallowDict_grows (h : H) (r : Ref) : Grows h (shallowDict h r).1 := by
+  unfold shallowDict
+  split <;> exact Grows.alloc _ _
+
+theorem deepDict_grows (h : H) (r : Ref) : Grows h (deepDict h r).1 := by
+  unfold deepDict
+  simp only []
+  refine Grows.trans (foldl_grows _ ?_ _ _ _) (Grows.alloc _ _)
+  intro acc e
+  split
+  · exact Grows.refl _
+  · exact Grows.alloc _ _
+
+theorem freshBuf_grows (h : H) (r : Ref) (view : List Nat) : Grows h (freshBuf h r view).1 :=
+  Grows.alloc _ _
+
+theorem deepAxis_grows (h : H) (r : Ref) : Grows h (deepAxis h r).1 := by
+  unfold deepAxis
+  split
+  · exact ((freshBuf_grows _ _ _).trans (deepDict_grows _ _)).trans (Grows.alloc _ _)
+  · exact Grows.alloc _ _
+
+theorem selectAxis_grows (h : H) (r : Ref) (ps : List Nat) : Grows h (selectAxis h r ps).1 := by
+  unfold selectAxis
+  split
+  · exact ((freshBuf_grows _ _ _).trans (shallowDict_grows _ _)).trans (Grows.alloc _ _)
+  · exact Grows.alloc _ _
+
+theorem mapAlloc_grows (f : H → Ref → H × Ref) (hf : ∀ h r, Grows h (f h r).1) (h : H) (rs : List Ref) :
+    Grows h (mapAlloc f h rs).1 := by
+  unfold mapAlloc
+  refine foldl_grows _ ?_ _ _ _
+  intro acc a
+  exact hf acc.1 a
+
+theorem mkDict_grows (h : H) (spec : List (String × Option (List String))) : Grows h (mkDict h spec).1 := by
+  unfold mkDict
+  simp only []
+  refine Grows.trans (foldl_grows _ ?_ _ _ _) (Grows.alloc _ _)
+  intro acc e
+  split
+  · exact Grows.refl _
+  · exact Grows.alloc _ _
+
+theorem create_grows (h : H) (shape : List Nat) (cells : List Int)
+    (axes : List (String × List Int × List (String × Option (List String))))
+    (attrs : List (String × Option (List String))) :
+    Grows h (create h shape cells axes attrs).1 ∧
+      (create h shape cells axes attrs).2 < (create h shape cells axes attrs).1.length := by
+  unfold create
+  simp only []
+  refine ⟨?_, by simp [alloc]⟩
+  refine Grows.trans (Grows.alloc _ _) (Grows.trans (Grows.trans (foldl_grows _ ?_ _ _ _) (mkDict_grows _ _))
+    (Grows.alloc _ _))
+  intro acc a
+  exact ((Grows.alloc _ _).trans (mkDict_grows _ _)).trans (Grows.alloc _ _)
+
+
+theorem alloc_res {h h3 h' : H} {o : Obj} {r' : Ref} (hg : Grows h h3)
+    (hop : some (alloc h3 o) = some (h', r')) : Grows h h' ∧ r' < h'.length := by
+  simp only [Option.some.injEq] at hop
+  have h1 : h' = (alloc h3 o).1 := by rw [hop]
+  have h2 : r' = (alloc h3 o).2 := by rw [hop]
+  subst h1 h2
+  exact ⟨hg.trans (Grows.alloc _ _), by simp [alloc]⟩
+
+theorem deepCopy_grows {h h' : H} {r r' : Ref} (hop : deepCopy h r = some (h', r')) :
+    Grows h h' ∧ r' < h'.length := by
+  unfold deepCopy at hop
+  split at hop
+  · exact alloc_res (((freshBuf_grows _ _ _).trans (mapAlloc_grows _ deepAxis_grows _ _)).trans
+      (deepDict_grows _ _)) hop
+  · cases hop
+
+theorem transpose_grows {h h' : H} {r r' : Ref} {perm : List Nat} (hop : transpose h r perm = some (h', r')) :
+    Grows h h' ∧ r' < h'.length := by
+  unfold transpose at hop
+  split at hop
+  · split at hop
+    · cases hop
+    · exact alloc_res (shallowDict_grows _ _) hop
+  · cases hop
+
+theorem squeeze_grows {h h' : H} {r r' : Ref} (hop : squeeze h r = some (h', r')) :
+    Grows h h' ∧ r' < h'.length := by
+  unfold squeeze at hop
+  split at hop
+  · exact alloc_res (shallowDict_grows _ _) hop
+  · cases hop
+
+theorem sliceAll_grows {h h' : H} {r r' : Ref} (hop : sliceAll h r = some (h', r')) :
+    Grows h h' ∧ r' < h'.length := by
+  unfold sliceAll at hop
+  split at hop
+  · exact alloc_res (shallowDict_grows _ _) hop
+  · cases hop
+
+theorem takeScalar_grows {h h' : H} {r r' : Ref} {d p : Nat} (hop : takeScalar h r d p = some (h', r')) :
+    Grows h h' ∧ r' < h'.length := by
+  unfold takeScalar at hop
+  split at hop
+  · split at hop
+    · cases hop
+    · exact alloc_res (shallowDict_grows _ _) hop
+  · cases hop
+
+theorem takeList_grows {h h' : H} {r r' : Ref} {d : Nat} {ps : List Nat}
+    (hop : takeList h r d ps = some (h', r')) : Grows h h' ∧ r' < h'.length := by
+  unfold takeList at hop
+  split at hop
+  · split at hop
+    · cases hop
+    · exact alloc_res (((freshBuf_grows _ _ _).trans (selectAxis_grows _ _ _)).trans (shallowDict_grows _ _)) hop
+  · cases hop
+
+theorem addScalar_grows {h h' : H} {r r' : Ref} {k : Int} (hop : addScalar h r k = some (h', r')) :
+    Grows h h' ∧ r' < h'.length := by
+  unfold addScalar at hop
+  split at hop
+  · exact alloc_res ((Grows.alloc _ _).trans (Grows.alloc _ _)) hop
+  · cases hop
+
+theorem sortAxis_grows {h h' : H} {r r' : Ref} {d : Nat} (hop : sortAxis h r d = some (h', r')) :
+    Grows h h' ∧ r' < h'.length := by
+  unfold sortAxis at hop
+  split at hop
+  · split at hop
+    · cases hop
+    · refine alloc_res (((freshBuf_grows _ _ _).trans (foldl_grows _ ?_ _ _ _)).trans (shallowDict_grows _ _)) hop
+      intro acc i
+      simp only []
+      split
+      · exact selectAxis_grows _ _ _
+      · exact deepAxis_grows _ _
+  · cases hop
+
+theorem apply_grows {h : H} {env : List Ref} {op : Op} {h' : H} {r : Ref}
+    (hop : apply h env op = some (h', r)) : Grows h h' ∧ r < h'.length := by
+  cases op with
+  | create shape cells axes attrs =>
+    simp only [apply, Option.some.injEq] at hop
+    have := create_grows h shape cells axes attrs
+    rw [hop] at this
+    exact this
+  | «mut» k m => simp [apply] at hop
+  | copy k =>
+    simp only [apply, Option.bind_eq_some_iff] at hop
+    obtain ⟨q, _, hq⟩ := hop
+    exact deepCopy_grows hq
+  | transpose k perm =>
+    simp only [apply, Option.bind_eq_some_iff] at hop
+    obtain ⟨q, _, hq⟩ := hop
+    exact transpose_grows hq
+  | squeeze k =>
+    simp only [apply, Option.bind_eq_some_iff] at hop
+    obtain ⟨q, _, hq⟩ := hop
+    exact squeeze_grows hq
+  | sliceAll k =>
+    simp only [apply, Option.bind_eq_some_iff] at hop
+    obtain ⟨q, _, hq⟩ := hop
+    exact sliceAll_grows hq
+  | takeScalar k d p =>
+    simp only [apply, Option.bind_eq_some_iff] at hop
+    obtain ⟨q, _, hq⟩ := hop
+    exact takeScalar_grows hq
+  | takeList k d ps =>
+    simp only [apply, Option.bind_eq_some_iff] at hop
+    obtain ⟨q, _, hq⟩ := hop
+    exact takeList_grows hq
+  | addScalar k c =>
+    simp only [apply, Option.bind_eq_some_iff] at hop
+    obtain ⟨q, _, hq⟩ := hop
+    exact addScalar_grows hq
+  | sortAxis k d =>
+    simp only [apply, Option.bind_eq_some_iff] at hop
+    obtain ⟨q, _, hq⟩ := hop
+    exact sortAxis_grows hq
+
+
+/-! ### allocation of well-formed, separated objects -/
+
+/-- `h'` extends `h` by well-formed objects that refer to `n` and above only -/
+def Ext (n : Nat) (h h' : H) : Prop :=
+  ∃ new, h' = h ++ new ∧ ∀ o ∈ new, WFObj h' o ∧ ∀ r ∈ refs o, n ≤ r
+
+theorem Ext.grows {n : Nat} {h h' : H} (he : Ext n h h') : Grows h h' := by
+  obtain ⟨new, e, _⟩ := he
+  exact ⟨new, e⟩
+
+theorem Ext.refl (n : Nat) (h : H) : Ext n h h := ⟨[], by simp, by simp⟩
+
+theorem Ext.trans {n : Nat} {a b c : H} (h1 : Ext n a b) (h2 : Ext n b c) : Ext n a c := by
+  obtain ⟨x, rfl, hx⟩ := h1
+  obtain ⟨y, rfl, hy⟩ := h2
+  refine ⟨x ++ y, by simp, ?_⟩
+  intro o ho
+  rw [List.mem_append] at ho
+  rcases ho with ho | ho
+  · exact ⟨WFObj_mono (Grows.append _ _) (hx o ho).1, (hx o ho).2⟩
+  · exact hy o ho
+
+theorem Ext.zero {n : Nat} {h h' : H} (he : Ext n h h') : Ext 0 h h' := by
+  obtain ⟨new, e, hn⟩ := he
+  exact ⟨new, e, fun o ho => ⟨(hn o ho).1, fun _ _ => Nat.zero_le _⟩⟩
+
+theorem Ext.alloc {n : Nat} {h : H} {o : Obj} (hw : WFObj (h ++ [o]) o) (hr : ∀ r ∈ refs o, n ≤ r) :
+    Ext n h (alloc h o).1 := by
+  refine ⟨[o], rfl, ?_⟩
+  intro o2 ho2
+  simp only [List.mem_singleton] at ho2
+  subst ho2
+  exact ⟨hw, hr⟩
+
+theorem Ext.wf {n : Nat} {h h' : H} (hwf : WF h) (he : Ext n h h') : WF h' := by
+  obtain ⟨new, rfl, hn⟩ := he
+  intro o ho
+  rw [List.mem_append] at ho
+  rcases ho with ho | ho
+  · exact WFObj_mono (Grows.append _ _) (hwf o ho)
+  · exact (hn o ho).1
+
+theorem Ext.sep {h h' : H} (hwf : WF h) (he : Ext h.length h h') : Sep h.length h' := by
+  obtain ⟨new, rfl, hn⟩ := he
+  intro i o hi
+  constructor
+  · intro hlt
+    rw [List.getElem?_append_left hlt] at hi
+    exact WFObj_refs_lt (hwf o (List.mem_of_getElem? hi))
+  · intro hge
+    rw [List.getElem?_append_right hge] at hi
+    exact (hn o (List.mem_of_getElem? hi)).2
+
+/-! the accumulating folds of the model, as a structural recursion -/
+
+def mapAccum {α β : Type} (g : H → α → H × β) : H → List α → H × List β
+  | h, [] => (h, [])
+  | h, a :: l => ((mapAccum g (g h a).1 l).1, (g h a).2 :: (mapAccum g (g h a).1 l).2)
+
+theorem foldl_step_eq {α β : Type} (f : H × List β → α → H × List β) (g : H → α → H × β)
+    (hf : ∀ acc a, f acc a = ((g acc.1 a).1, acc.2 ++ [(g acc.1 a).2])) (l : List α) :
+    ∀ (s : H) (out : List β), l.foldl f (s, out) = ((mapAccum g s l).1, out ++ (mapAccum g s l).2) := by
+  induction l with
+  | nil => intro s out; simp [mapAccum]
+  | cons a l ih =>
+    intro s out
+    rw [List.foldl_cons, hf, ih]
+    simp [mapAccum]
+
+theorem mapAccum_heap {α β γ : Type} (g : H → α → H × β) (n : Nat)
+    (Pre : H → α → Prop) (Good : H → β → Prop) (obsA : α → γ) (obsB : H → β → γ)
+    (pre_mono : ∀ h h' a, WF h → Grows h h' → Pre h a → Pre h' a)
+    (good_mono : ∀ h h' b, WF h → Grows h h' → Good h b → Good h' b)
+    (obsB_mono : ∀ h h' b, WF h → Grows h h' → Good h b → obsB h' b = obsB h b)
+    (spec : ∀ h a, WF h → n ≤ h.length → Pre h a →
+      Ext n h (g h a).1 ∧ Good (g h a).1 (g h a).2 ∧ obsB (g h a).1 (g h a).2 = obsA a) :
+    ∀ (l : List α) (h : H), WF h → n ≤ h.length → (∀ a ∈ l, Pre h a) →
+      Ext n h (mapAccum g h l).1 ∧ (∀ b ∈ (mapAccum g h l).2, Good (mapAccum g h l).1 b) ∧
+      (mapAccum g h l).2.map (obsB (mapAccum g h l).1) = l.map obsA ∧
+      (mapAccum g h l).2.length = l.length := by
+  intro l
+  induction l with
+  | nil => intro h _ _ _; exact ⟨Ext.refl _ _, by simp [mapAccum], by simp [mapAccum], by simp [mapAccum]⟩
+  | cons a l ih =>
+    intro h hwf hn hpre
+    obtain ⟨he1, hg1, ho1⟩ := spec h a hwf hn (hpre a (List.mem_cons_self ..))
+    have hwf1 : WF (g h a).1 := he1.wf hwf
+    have hn1 : n ≤ (g h a).1.length := Nat.le_trans hn he1.grows.le
+    obtain ⟨he2, hg2, ho2, hl2⟩ := ih (g h a).1 hwf1 hn1
+      (fun a' ha' => pre_mono _ _ _ hwf he1.grows (hpre a' (List.mem_cons_of_mem _ ha')))
+    simp only [mapAccum]
+    refine ⟨he1.trans he2, ?_, ?_, ?_⟩
+    · intro b hb
+      rw [List.mem_cons] at hb
+      rcases hb with rfl | hb
+      · exact good_mono _ _ _ hwf1 he2.grows hg1
+      · exact hg2 b hb
+    · rw [List.map_cons, List.map_cons, ho2, obsB_mono _ _ _ hwf1 he2.grows hg1, ho1]
+    · simp [hl2]
+
+
+/-! ### helper specifications on a well-formed heap -/
+
+theorem get_append_last (h : H) (o : Obj) : (h ++ [o])[h.length]? = some o := by
+  simp
+
+theorem obsVal_grows {h h' : H} (hg : Grows h h') {v : MVal} (hv : ∀ lr, v = .list lr → lr < h.length) :
+    obsVal h' v = obsVal h v :=
+  obsVal_agree (S := fun i => i < h.length) hg.agree hv
+
+theorem obsDict_of_dict {h : H} {r : Ref} {kv : List (String × MVal)} (hx : h[r]? = some (.dict kv)) :
+    obsDict h r = kv.map fun e => (e.1, obsVal h e.2) := by
+  unfold obsDict; rw [hx]
+
+/-- a metadata entry is fine in `hh`: its list (if any) is a list object at `n` or above -/
+def EntryOK (n : Nat) (hh : H) (e : String × MVal) : Prop :=
+  ∀ lr, e.2 = .list lr → n ≤ lr ∧ ∃ items, hh[lr]? = some (.mlist items)
+
+theorem EntryOK.mono {n : Nat} {h h' : H} {e : String × MVal} (hg : Grows h h') (he : EntryOK n h e) :
+    EntryOK n h' e := by
+  intro lr hlr
+  obtain ⟨h1, items, h2⟩ := he lr hlr
+  exact ⟨h1, items, hg.get h2⟩
+
+theorem EntryOK.obs {n : Nat} {h h' : H} {e : String × MVal} (hg : Grows h h') (he : EntryOK n h e) :
+    (e.1, obsVal h' e.2) = (e.1, obsVal h e.2) := by
+  rw [obsVal_grows hg]
+  intro lr hlr
+  obtain ⟨_, items, h2⟩ := he lr hlr
+  exact lt_of_get h2
+
+/-- allocating a dict whose entries are fine -/
+theorem alloc_dict_spec {n : Nat} {h hf : H} {kv : List (String × MVal)} (he : Ext n h hf)
+    (hkv : ∀ e ∈ kv, EntryOK n hf e) :
+    Ext n h (alloc hf (.dict kv)).1 ∧ (alloc hf (.dict kv)).1[(alloc hf (.dict kv)).2]? = some (.dict kv) ∧
+    obsDict (alloc hf (.dict kv)).1 (alloc hf (.dict kv)).2 = kv.map fun e => (e.1, obsVal hf e.2) := by
+  have hlast : (alloc hf (.dict kv)).1[(alloc hf (.dict kv)).2]? = some (.dict kv) := get_append_last _ _
+  refine ⟨he.trans (Ext.alloc ?_ ?_), hlast, ?_⟩
+  · rw [WFObj_dict]
+    intro k lr hm
+    obtain ⟨_, items, hi⟩ := hkv _ hm lr rfl
+    exact ⟨items, (Grows.append _ _).get hi⟩
+  · intro r hr
+    rw [mem_refs_dict] at hr
+    obtain ⟨k, hm⟩ := hr
+    exact (hkv _ hm r rfl).1
+  · rw [obsDict_of_dict hlast]
+    apply List.map_congr_left
+    intro e hm
+    exact (hkv e hm).obs (Grows.alloc _ _)
+
+/-! `deepDict` -/
+
+def dictKV (h : H) (r : Ref) : List (String × MVal) :=
+  match h[r]? with
+  | some (.dict kv) => kv
+  | _ => []
+
+def deepEntry (h0 : H) (hh : H) (e : String × MVal) : H × (String × MVal) :=
+  match e.2 with
+  | .atom s => (hh, (e.1, .atom s))
+  | .list lr =>
+    (hh ++ [.mlist (match h0[lr]? with | some (.mlist items) => items | _ => [])], (e.1, .list hh.length))
+
+theorem deepDict_eq (h : H) (r : Ref) :
+    deepDict h r = alloc (mapAccum (deepEntry h) h (dictKV h r)).1 (.dict (mapAccum (deepEntry h) h (dictKV h r)).2) := by
+  unfold deepDict
+  simp only []
+  rw [foldl_step_eq _ (deepEntry h)]
+  · rfl
+  · intro acc e
+    rcases e with ⟨k, v⟩
+    cases v <;> rfl
+
+theorem dictKV_cases (h : H) (r : Ref) :
+    h[r]? = some (.dict (dictKV h r)) ∨ (dictKV h r = [] ∧ obsDict h r = []) := by
+  unfold dictKV obsDict
+  cases hx : h[r]? with
+  | none => right; exact ⟨rfl, rfl⟩
+  | some o => cases o <;> first | (left; rfl) | (right; exact ⟨rfl, rfl⟩)
+
+theorem deepEntry_spec (n : Nat) (h0 : H) (hh : H) (e : String × MVal) (hn : n ≤ hh.length)
+    (hpre : ∀ lr, e.2 = .list lr → ∃ items, h0[lr]? = some (.mlist items)) :
+    Ext n hh (deepEntry h0 hh e).1 ∧ EntryOK n (deepEntry h0 hh e).1 (deepEntry h0 hh e).2 ∧
+    ((deepEntry h0 hh e).2.1, obsVal (deepEntry h0 hh e).1 (deepEntry h0 hh e).2.2) = (e.1, obsVal h0 e.2) := by
+  rcases e with ⟨k, v⟩
+  cases v with
+  | atom s =>
+    refine ⟨Ext.refl _ _, ?_, rfl⟩
+    intro lr hlr; cases hlr
+  | list lr =>
+    obtain ⟨items, hi⟩ := hpre lr rfl
+    simp only [deepEntry, hi]
+    refine ⟨Ext.alloc (o := .mlist items) trivial (by simp [refs]), ?_, ?_⟩
+    · intro lr2 hlr2
+      cases hlr2
+      exact ⟨hn, items, get_append_last _ _⟩
+    · simp [obsVal, hi]
+
+theorem deepDict_spec {n : Nat} {h : H} (r : Ref) (hwf : WF h) (hn : n ≤ h.length) :
+    Ext n h (deepDict h r).1 ∧ n ≤ (deepDict h r).2 ∧
+    (∃ kv, (deepDict h r).1[(deepDict h r).2]? = some (.dict kv)) ∧
+    obsDict (deepDict h r).1 (deepDict h r).2 = obsDict h r := by
+  rw [deepDict_eq]
+  have hpre : ∀ e ∈ dictKV h r, ∀ lr, e.2 = .list lr → ∃ items, h[lr]? = some (.mlist items) := by
+    rcases dictKV_cases h r with hx | ⟨hx, _⟩
+    · intro e he lr hlr
+      have hw := hwf _ (List.mem_of_getElem? hx)
+      rw [WFObj_dict] at hw
+      rcases e with ⟨k, v⟩
+      simp only at hlr
+      subst hlr
+      exact hw k lr he
+    · rw [hx]; intro e he; cases he
+  obtain ⟨he, hgood, hobs, _⟩ := mapAccum_heap (deepEntry h) n
+    (fun _ e => ∀ lr, e.2 = .list lr → ∃ items, h[lr]? = some (.mlist items))
+    (EntryOK n) (fun e => (e.1, obsVal h e.2)) (fun hh e => (e.1, obsVal hh e.2))
+    (fun _ _ _ _ _ hp => hp) (fun _ _ _ _ hg hb => hb.mono hg) (fun _ _ _ _ hg hb => hb.obs hg)
+    (fun hh e _ hn2 hp => deepEntry_spec n h hh e hn2 hp) (dictKV h r) h hwf hn hpre
+  obtain ⟨h1, h2, h3⟩ := alloc_dict_spec he hgood
+  refine ⟨h1, Nat.le_trans hn he.grows.le, ⟨_, h2⟩, ?_⟩
+  rw [h3, hobs]
+  rcases dictKV_cases h r with hx | ⟨hx, hy⟩
+  · rw [obsDict_of_dict hx]
+  · rw [hx, hy]; rfl
+
+
+theorem map_range_getD (cells : List Int) :
+    (List.range cells.length).map (fun p => cells.getD p 0) = cells := by
+  apply List.ext_getElem
+  · simp
+  · intro i h1 h2
+    simp at h1
+    simp [h1]
+
+theorem readBuf_fresh {h : H} {r : Ref} {cells : List Int} (hx : h[r]? = some (.buf cells)) :
+    readBuf h r (List.range cells.length) = cells := by
+  unfold readBuf; rw [hx]
+  exact map_range_getD cells
+
+def IsBuf (h : H) (r : Ref) : Prop := ∃ c, h[r]? = some (.buf c)
+def IsDict (h : H) (r : Ref) : Prop := ∃ kv, h[r]? = some (.dict kv)
+def IsAxis (h : H) (r : Ref) : Prop := ∃ n l v t, h[r]? = some (.axis n l v t)
+
+theorem IsBuf.mono {h h' : H} {r : Ref} (hg : Grows h h') : IsBuf h r → IsBuf h' r := by
+  rintro ⟨c, hc⟩; exact ⟨c, hg.get hc⟩
+theorem IsDict.mono {h h' : H} {r : Ref} (hg : Grows h h') : IsDict h r → IsDict h' r := by
+  rintro ⟨c, hc⟩; exact ⟨c, hg.get hc⟩
+theorem IsAxis.mono {h h' : H} {r : Ref} (hg : Grows h h') : IsAxis h r → IsAxis h' r := by
+  rintro ⟨n, l, v, t, hc⟩; exact ⟨n, l, v, t, hg.get hc⟩
+theorem IsAxis.lt {h : H} {r : Ref} : IsAxis h r → r < h.length := by
+  rintro ⟨n, l, v, t, hc⟩; exact lt_of_get hc
+
+/-! `freshBuf` -/
+
+theorem freshBuf_eq (h : H) (r : Ref) (view : List Nat) :
+    freshBuf h r view = (h ++ [.buf (readBuf h r view)], h.length, List.range (readBuf h r view).length) := rfl
+
+theorem freshBuf_ext (n : Nat) (h : H) (r : Ref) (view : List Nat) :
+    Ext n h (h ++ [.buf (readBuf h r view)]) :=
+  Ext.alloc (o := .buf (readBuf h r view)) trivial (by simp [refs])
+
+/-! `shallowDict` -/
+
+theorem shallowDict_spec {h : H} (r : Ref) (hwf : WF h) :
+    Ext 0 h (shallowDict h r).1 ∧ IsDict (shallowDict h r).1 (shallowDict h r).2 := by
+  unfold shallowDict
+  cases hx : h[r]? with
+  | none =>
+    exact ⟨Ext.alloc (by rw [WFObj_dict]; intro k r he; cases he) (fun _ _ => Nat.zero_le _),
+      ⟨_, get_append_last _ _⟩⟩
+  | some o =>
+    cases o with
+    | dict kv =>
+      refine ⟨Ext.alloc ?_ (fun _ _ => Nat.zero_le _), ⟨_, get_append_last _ _⟩⟩
+      exact WFObj_mono (Grows.append _ _) (hwf _ (List.mem_of_getElem? hx))
+    | _ =>
+      exact ⟨Ext.alloc (by rw [WFObj_dict]; intro k r he; cases he) (fun _ _ => Nat.zero_le _),
+        ⟨_, get_append_last _ _⟩⟩
+
+/-! `deepAxis` -/
+
+theorem deepAxis_eq {h : H} {r : Ref} {name : String} {labels : Ref} {view : List Nat} {attrs : Ref}
+    (hx : h[r]? = some (.axis name labels view attrs)) :
+    deepAxis h r = alloc (deepDict (h ++ [.buf (readBuf h labels view)]) attrs).1
+      (.axis name h.length (List.range (readBuf h labels view).length)
+        (deepDict (h ++ [.buf (readBuf h labels view)]) attrs).2) := by
+  unfold deepAxis; rw [hx]; rfl
+
+theorem deepAxis_spec {n : Nat} {h : H} {r : Ref} (hwf : WF h) (hn : n ≤ h.length) (hax : IsAxis h r) :
+    Ext n h (deepAxis h r).1 ∧ n ≤ (deepAxis h r).2 ∧ IsAxis (deepAxis h r).1 (deepAxis h r).2 ∧
+    obsAxis (deepAxis h r).1 (deepAxis h r).2 = obsAxis h r := by
+  obtain ⟨name, labels, view, attrs, hx⟩ := hax
+  rw [deepAxis_eq hx]
+  have hw := hwf _ (List.mem_of_getElem? hx)
+  obtain ⟨⟨c, hc⟩, ⟨kv, hk⟩⟩ := hw
+  have he1 : Ext n h (h ++ [.buf (readBuf h labels view)]) := freshBuf_ext n h labels view
+  have hwf1 := he1.wf hwf
+  have hn1 : n ≤ (h ++ [Obj.buf (readBuf h labels view)]).length := Nat.le_trans hn he1.grows.le
+  obtain ⟨he2, hn2, ⟨kv2, hd2⟩, ho2⟩ := deepDict_spec (n := n) attrs hwf1 hn1
+  generalize hD : deepDict (h ++ [Obj.buf (readBuf h labels view)]) attrs = D at he2 hn2 hd2 ho2
+  have hbuf : D.1[h.length]? = some (.buf (readBuf h labels view)) := he2.grows.get (get_append_last _ _)
+  have hlast : (alloc D.1 (.axis name h.length (List.range (readBuf h labels view).length) D.2)).1[
+      (alloc D.1 (.axis name h.length (List.range (readBuf h labels view).length) D.2)).2]? =
+      some (.axis name h.length (List.range (readBuf h labels view).length) D.2) := get_append_last _ _
+  have hga : Grows D.1 (alloc D.1 (.axis name h.length (List.range (readBuf h labels view).length) D.2)).1 :=
+    Grows.alloc _ _
+  refine ⟨(he1.trans he2).trans (Ext.alloc ?_ ?_), ?_, ⟨_, _, _, _, hlast⟩, ?_⟩
+  · exact ⟨⟨_, hga.get hbuf⟩, ⟨_, hga.get hd2⟩⟩
+  · intro x hx2
+    simp only [refs, List.mem_cons, List.not_mem_nil, or_false] at hx2
+    rcases hx2 with rfl | rfl
+    · exact hn
+    · exact hn2
+  · exact Nat.le_trans hn (he1.trans he2).grows.le
+  · have hwfD : WF D.1 := he2.wf hwf1
+    unfold obsAxis
+    rw [hlast, hx]
+    simp only []
+    rw [readBuf_fresh (hga.get hbuf), obsDict_grows hwfD hga (lt_of_get hd2), ho2,
+      obsDict_grows hwf he1.grows (lt_of_get hk)]
+
+/-! `selectAxis` -/
+
+theorem selectAxis_spec {h : H} {r : Ref} (ps : List Nat) (hwf : WF h) (hax : IsAxis h r) :
+    Ext 0 h (selectAxis h r ps).1 ∧ IsAxis (selectAxis h r ps).1 (selectAxis h r ps).2 := by
+  obtain ⟨name, labels, view, attrs, hx⟩ := hax
+  have e : selectAxis h r ps =
+      alloc (shallowDict (h ++ [.buf (readBuf h labels (ps.map fun p => view.getD p 0))]) attrs).1
+        (.axis name h.length (List.range (readBuf h labels (ps.map fun p => view.getD p 0)).length)
+          (shallowDict (h ++ [.buf (readBuf h labels (ps.map fun p => view.getD p 0))]) attrs).2) := by
+    unfold selectAxis; rw [hx]; rfl
+  rw [e]
+  generalize readBuf h labels (ps.map fun p => view.getD p 0) = cells
+  have he1 : Ext 0 h (h ++ [.buf cells]) := Ext.alloc (o := .buf cells) trivial (by simp [refs])
+  have hwf1 := he1.wf hwf
+  obtain ⟨he2, hd2⟩ := shallowDict_spec attrs hwf1
+  generalize shallowDict (h ++ [.buf cells]) attrs = D at he2 hd2
+  have hbuf : D.1[h.length]? = some (.buf cells) := he2.grows.get (get_append_last _ _)
+  refine ⟨(he1.trans he2).trans (Ext.alloc ?_ (fun _ _ => Nat.zero_le _)), ⟨_, _, _, _, get_append_last _ _⟩⟩
+  exact ⟨⟨_, (Grows.append _ _).get hbuf⟩, hd2.mono (Grows.append _ _)⟩
+
+/-! `mapAlloc deepAxis` -/
+
+theorem mapAlloc_eq (f : H → Ref → H × Ref) (h : H) (rs : List Ref) :
+    mapAlloc f h rs = mapAccum f h rs := by
+  unfold mapAlloc
+  rw [foldl_step_eq _ f]
+  · simp
+  · intro acc a; rfl
+
+theorem mapAlloc_deepAxis_spec {n : Nat} {h : H} (rs : List Ref) (hwf : WF h) (hn : n ≤ h.length)
+    (hax : ∀ a ∈ rs, IsAxis h a) :
+    Ext n h (mapAlloc deepAxis h rs).1 ∧
+    (∀ b ∈ (mapAlloc deepAxis h rs).2, n ≤ b ∧ IsAxis (mapAlloc deepAxis h rs).1 b) ∧
+    (mapAlloc deepAxis h rs).2.map (obsAxis (mapAlloc deepAxis h rs).1) = rs.map (obsAxis h) ∧
+    (mapAlloc deepAxis h rs).2.length = rs.length := by
+  rw [mapAlloc_eq]
+  exact mapAccum_heap deepAxis n (fun hh a => IsAxis hh a ∧ obsAxis hh a = obsAxis h a)
+    (fun hh b => n ≤ b ∧ IsAxis hh b) (obsAxis h) obsAxis
+    (fun _ _ a hw hg hp => ⟨hp.1.mono hg, by rw [obsAxis_grows hw hg hp.1.lt]; exact hp.2⟩)
+    (fun _ _ _ _ hg hb => ⟨hb.1, hb.2.mono hg⟩)
+    (fun _ _ _ hw hg hb => obsAxis_grows hw hg hb.2.lt)
+    (fun hh a hw hn2 hp => by
+      obtain ⟨h1, h2, h3, h4⟩ := deepAxis_spec hw hn2 hp.1
+      exact ⟨h1, ⟨h2, h3⟩, by rw [h4]; exact hp.2⟩)
+    rs h hwf hn (fun a ha => ⟨hax a ha, rfl⟩)
+
+
+/-! `mkDict`, `create` -/
+
+def mkEntry (hh : H) (e : String × Option (List String)) : H × (String × MVal) :=
+  match e.2 with
+  | none => (hh, (e.1, .atom "K"))
+  | some items => (hh ++ [.mlist items], (e.1, .list hh.length))
+
+theorem mkDict_eq (h : H) (spec : List (String × Option (List String))) :
+    mkDict h spec = alloc (mapAccum mkEntry h spec).1 (.dict (mapAccum mkEntry h spec).2) := by
+  unfold mkDict
+  simp only []
+  rw [foldl_step_eq _ mkEntry]
+  · rfl
+  · intro acc e
+    rcases e with ⟨k, v⟩
+    cases v <;> rfl
+
+theorem mkEntry_spec (hh : H) (e : String × Option (List String)) :
+    Ext 0 hh (mkEntry hh e).1 ∧ EntryOK 0 (mkEntry hh e).1 (mkEntry hh e).2 := by
+  rcases e with ⟨k, v⟩
+  cases v with
+  | none =>
+    refine ⟨Ext.refl _ _, ?_⟩
+    intro lr hlr; cases hlr
+  | some items =>
+    refine ⟨Ext.alloc (o := .mlist items) trivial (by simp [refs]), ?_⟩
+    intro lr hlr
+    cases hlr
+    exact ⟨Nat.zero_le _, items, get_append_last _ _⟩
+
+theorem mkDict_spec {h : H} (spec : List (String × Option (List String))) (hwf : WF h) :
+    Ext 0 h (mkDict h spec).1 ∧ IsDict (mkDict h spec).1 (mkDict h spec).2 := by
+  rw [mkDict_eq]
+  obtain ⟨he, hgood, _, _⟩ := mapAccum_heap mkEntry 0 (fun _ _ => True) (EntryOK 0) (fun _ => ()) (fun _ _ => ())
+    (fun _ _ _ _ _ hp => hp) (fun _ _ _ _ hg hb => hb.mono hg) (fun _ _ _ _ _ _ => rfl)
+    (fun hh e _ _ _ => ⟨(mkEntry_spec hh e).1, (mkEntry_spec hh e).2, rfl⟩) spec h hwf (Nat.zero_le _)
+    (fun _ _ => trivial)
+  obtain ⟨h1, h2, _⟩ := alloc_dict_spec he hgood
+  exact ⟨h1, ⟨_, h2⟩⟩
+
+def mkAxis (hh : H) (a : String × List Int × List (String × Option (List String))) : H × Ref :=
+  alloc (mkDict (hh ++ [.buf a.2.1]) a.2.2).1
+    (.axis a.1 hh.length (List.range a.2.1.length) (mkDict (hh ++ [.buf a.2.1]) a.2.2).2)
+
+theorem mkAxis_spec {hh : H} (a : String × List Int × List (String × Option (List String))) (hwf : WF hh) :
+    Ext 0 hh (mkAxis hh a).1 ∧ IsAxis (mkAxis hh a).1 (mkAxis hh a).2 := by
+  unfold mkAxis
+  have he1 : Ext 0 hh (hh ++ [.buf a.2.1]) := Ext.alloc (o := .buf a.2.1) trivial (by simp [refs])
+  obtain ⟨he2, hd2⟩ := mkDict_spec a.2.2 (he1.wf hwf)
+  generalize mkDict (hh ++ [.buf a.2.1]) a.2.2 = D at he2 hd2
+  have hbuf : D.1[hh.length]? = some (.buf a.2.1) := he2.grows.get (get_append_last _ _)
+  refine ⟨(he1.trans he2).trans (Ext.alloc ?_ (fun _ _ => Nat.zero_le _)), ⟨_, _, _, _, get_append_last _ _⟩⟩
+  exact ⟨⟨_, (Grows.append _ _).get hbuf⟩, hd2.mono (Grows.append _ _)⟩
+
+theorem create_eq (h : H) (shape : List Nat) (cells : List Int)
+    (axes : List (String × List Int × List (String × Option (List String))))
+    (attrs : List (String × Option (List String))) :
+    create h shape cells axes attrs =
+      alloc (mkDict (mapAccum mkAxis (h ++ [.buf cells]) axes).1 attrs).1
+        (.arr h.length (List.range cells.length) shape (mapAccum mkAxis (h ++ [.buf cells]) axes).2
+          (mkDict (mapAccum mkAxis (h ++ [.buf cells]) axes).1 attrs).2) := by
+  unfold create
+  simp only []
+  rw [foldl_step_eq _ mkAxis]
+  · rfl
+  · intro acc a; rfl
+
+/-- the array at `r` has as many Axis objects as dimensions -/
+def ArrAt (h : H) (r : Ref) : Prop :=
+  ∃ v w sh ax t, h[r]? = some (.arr v w sh ax t) ∧ ax.length = sh.length
+
+theorem alloc_arr_spec {n : Nat} {h h3 : H} {v : Ref} {w sh : List Nat} {ax : List Ref} {t : Ref}
+    (he : Ext n h h3) (hv : IsBuf h3 v) (ht : IsDict h3 t) (hax : ∀ a ∈ ax, IsAxis h3 a)
+    (hnv : n ≤ v) (hnt : n ≤ t) (hna : ∀ a ∈ ax, n ≤ a) :
+    Ext n h (alloc h3 (.arr v w sh ax t)).1 ∧
+    (alloc h3 (.arr v w sh ax t)).1[(alloc h3 (.arr v w sh ax t)).2]? = some (.arr v w sh ax t) := by
+  refine ⟨he.trans (Ext.alloc ?_ ?_), get_append_last _ _⟩
+  · exact ⟨hv.mono (Grows.append _ _), ht.mono (Grows.append _ _), fun a ha => (hax a ha).mono (Grows.append _ _)⟩
+  · intro x hx
+    simp only [refs, List.mem_cons] at hx
+    rcases hx with rfl | rfl | hx
+    · exact hnv
+    · exact hnt
+    · exact hna x hx
+
+theorem alloc_arr_res {h h3 h' : H} {r' : Ref} {v : Ref} {w sh : List Nat} {ax : List Ref} {t : Ref}
+    (he : Ext 0 h h3) (hv : IsBuf h3 v) (ht : IsDict h3 t) (hax : ∀ a ∈ ax, IsAxis h3 a)
+    (hdim : ax.length = sh.length)
+    (hop : some (alloc h3 (.arr v w sh ax t)) = some (h', r')) : Ext 0 h h' ∧ ArrAt h' r' := by
+  simp only [Option.some.injEq] at hop
+  have h1 : h' = (alloc h3 (.arr v w sh ax t)).1 := by rw [hop]
+  have h2 : r' = (alloc h3 (.arr v w sh ax t)).2 := by rw [hop]
+  subst h1 h2
+  obtain ⟨e1, e2⟩ := alloc_arr_spec (w := w) (sh := sh) he hv ht hax (Nat.zero_le _) (Nat.zero_le _)
+    (fun _ _ => Nat.zero_le _)
+  exact ⟨e1, _, _, _, _, _, e2, hdim⟩
+
+theorem create_spec {h : H} (shape : List Nat) (cells : List Int)
+    (axes : List (String × List Int × List (String × Option (List String))))
+    (attrs : List (String × Option (List String))) (hwf : WF h) (hdim : axes.length = shape.length) :
+    Ext 0 h (create h shape cells axes attrs).1 ∧
+      ArrAt (create h shape cells axes attrs).1 (create h shape cells axes attrs).2 := by
+  rw [create_eq]
+  have he1 : Ext 0 h (h ++ [.buf cells]) := Ext.alloc (o := .buf cells) trivial (by simp [refs])
+  have hwf1 := he1.wf hwf
+  obtain ⟨he2, hgood, _, hlen⟩ := mapAccum_heap mkAxis 0 (fun _ _ => True) IsAxis (fun _ => ()) (fun _ _ => ())
+    (fun _ _ _ _ _ hp => hp) (fun _ _ _ _ hg hb => hb.mono hg) (fun _ _ _ _ _ _ => rfl)
+    (fun hh a hw _ _ => ⟨(mkAxis_spec a hw).1, (mkAxis_spec a hw).2, rfl⟩) axes _ hwf1 (Nat.zero_le _)
+    (fun _ _ => trivial)
+  generalize mapAccum mkAxis (h ++ [.buf cells]) axes = A at he2 hgood hlen
+  have hwf2 := he2.wf hwf1
+  obtain ⟨he3, hd3⟩ := mkDict_spec attrs hwf2
+  generalize mkDict A.1 attrs = D at he3 hd3
+  have hbuf : IsBuf D.1 h.length := ⟨_, (he2.trans he3).grows.get (get_append_last _ _)⟩
+  exact alloc_arr_res ((he1.trans he2).trans he3) hbuf hd3 (fun a ha => (hgood a ha).mono he3.grows)
+    (by rw [hlen, hdim]) rfl
+
+
+/-! ### the operations on a well-formed heap -/
+
+theorem getD_mem {l : List Nat} {k x : Nat} (hk : k < l.length) : l.getD k x ∈ l := by
+  rw [List.getD_eq_getElem?_getD, List.getElem?_eq_getElem hk]
+  simp
+
+/-- pigeonhole: a list of length `n` that contains `0 .. n-1` contains nothing else -/
+theorem perm_lt {perm : List Nat} {n : Nat} (hl : perm.length = n) (hall : ∀ x, x < n → x ∈ perm) :
+    ∀ k ∈ perm, k < n := by
+  intro k hk
+  cases Nat.lt_or_ge k n with
+  | inl h1 => exact h1
+  | inr h1 =>
+    exfalso
+    have hsub : List.range n ⊆ perm.erase k := by
+      intro x hx
+      rw [List.mem_range] at hx
+      exact (List.mem_erase_of_ne (by omega)).2 (hall x hx)
+    have h2 := List.nodup_range.length_le_of_subset hsub
+    rw [List.length_range, List.length_erase_of_mem hk, hl] at h2
+    have h3 : 0 < n := by rw [← hl]; exact List.length_pos_of_mem hk
+    omega
+
+section Ops
+variable {h h' : H} {r r' : Ref} {v : Ref} {w sh : List Nat} {ax : List Ref} {t : Ref}
+
+theorem transpose_wf {perm : List Nat} (hwf : WF h) (hx : h[r]? = some (.arr v w sh ax t))
+    (hdim : ax.length = sh.length) (hop : transpose h r perm = some (h', r')) :
+    Ext 0 h h' ∧ ArrAt h' r' := by
+  obtain ⟨hv, ht, hax⟩ := hwf _ (List.mem_of_getElem? hx)
+  unfold transpose at hop
+  rw [hx] at hop
+  simp only [] at hop
+  split at hop
+  · cases hop
+  · next hc =>
+    simp at hc
+    obtain ⟨he, hd⟩ := shallowDict_spec t hwf
+    refine alloc_arr_res he (IsBuf.mono he.grows hv) hd ?_ (by simp) hop
+    intro a ha
+    rw [List.mem_map] at ha
+    obtain ⟨k, hk, rfl⟩ := ha
+    have hlt : k < ax.length := by
+      rw [hdim]
+      exact perm_lt hc.1 hc.2 k hk
+    exact IsAxis.mono he.grows (hax _ (getD_mem hlt))
+
+theorem squeeze_wf (hwf : WF h) (hx : h[r]? = some (.arr v w sh ax t))
+    (hdim : ax.length = sh.length) (hop : squeeze h r = some (h', r')) :
+    Ext 0 h h' ∧ ArrAt h' r' := by
+  obtain ⟨hv, ht, hax⟩ := hwf _ (List.mem_of_getElem? hx)
+  unfold squeeze at hop
+  rw [hx] at hop
+  simp only [] at hop
+  obtain ⟨he, hd⟩ := shallowDict_spec t hwf
+  refine alloc_arr_res he (IsBuf.mono he.grows hv) hd ?_ (by simp) hop
+  intro a ha
+  rw [List.mem_map] at ha
+  obtain ⟨k, hk, rfl⟩ := ha
+  have hlt : k < ax.length := by
+    rw [hdim]
+    have := (List.mem_filter.mp hk).1
+    exact List.mem_range.mp this
+  exact IsAxis.mono he.grows (hax _ (getD_mem hlt))
+
+theorem sliceAll_wf (hwf : WF h) (hx : h[r]? = some (.arr v w sh ax t))
+    (hdim : ax.length = sh.length) (hop : sliceAll h r = some (h', r')) :
+    Ext 0 h h' ∧ ArrAt h' r' := by
+  obtain ⟨hv, ht, hax⟩ := hwf _ (List.mem_of_getElem? hx)
+  unfold sliceAll at hop
+  rw [hx] at hop
+  simp only [] at hop
+  obtain ⟨he, hd⟩ := shallowDict_spec t hwf
+  exact alloc_arr_res he (IsBuf.mono he.grows hv) hd (fun a ha => IsAxis.mono he.grows (hax a ha)) hdim hop
+
+theorem takeScalar_wf {d p : Nat} (hwf : WF h) (hx : h[r]? = some (.arr v w sh ax t))
+    (hdim : ax.length = sh.length) (hop : takeScalar h r d p = some (h', r')) :
+    Ext 0 h h' ∧ ArrAt h' r' := by
+  obtain ⟨hv, ht, hax⟩ := hwf _ (List.mem_of_getElem? hx)
+  unfold takeScalar at hop
+  rw [hx] at hop
+  simp only [] at hop
+  split at hop
+  · cases hop
+  · obtain ⟨he, hd⟩ := shallowDict_spec t hwf
+    refine alloc_arr_res he (IsBuf.mono he.grows hv) hd ?_ ?_ hop
+    · intro a ha
+      exact IsAxis.mono he.grows (hax a (List.mem_of_mem_eraseIdx ha))
+    · rw [List.length_eraseIdx, List.length_eraseIdx, hdim]
+
+theorem takeList_wf {d : Nat} {ps : List Nat} (hwf : WF h) (hx : h[r]? = some (.arr v w sh ax t))
+    (hdim : ax.length = sh.length) (hop : takeList h r d ps = some (h', r')) :
+    Ext 0 h h' ∧ ArrAt h' r' := by
+  obtain ⟨hv, ht, hax⟩ := hwf _ (List.mem_of_getElem? hx)
+  unfold takeList at hop
+  rw [hx] at hop
+  simp only [] at hop
+  split at hop
+  · cases hop
+  · next hc =>
+    simp only [freshBuf_eq] at hop
+    simp at hc
+    have hlt : d < ax.length := by rw [hdim]; exact hc.1
+    generalize readBuf h v _ = cells at hop
+    have he1 : Ext 0 h (h ++ [.buf cells]) := Ext.alloc (o := .buf cells) trivial (by simp [refs])
+    have hwf1 := he1.wf hwf
+    obtain ⟨he2, ha2⟩ := selectAxis_spec ps hwf1 (IsAxis.mono he1.grows (hax _ (getD_mem (x := 0) hlt)))
+    generalize selectAxis (h ++ [.buf cells]) (ax.getD d 0) ps = A at hop he2 ha2
+    have hwf2 := he2.wf hwf1
+    obtain ⟨he3, hd3⟩ := shallowDict_spec t hwf2
+    generalize shallowDict A.1 t = D at hop he3 hd3
+    have hg : Grows h D.1 := ((he1.trans he2).trans he3).grows
+    refine alloc_arr_res ((he1.trans he2).trans he3) ⟨_, (he2.trans he3).grows.get (get_append_last _ _)⟩ hd3
+      ?_ (by simp [hdim]) hop
+    intro a ha
+    rcases List.mem_or_eq_of_mem_set ha with ha | rfl
+    · exact IsAxis.mono hg (hax a ha)
+    · exact ha2.mono he3.grows
+
+theorem addScalar_wf {k : Int} (hwf : WF h) (hx : h[r]? = some (.arr v w sh ax t))
+    (hdim : ax.length = sh.length) (hop : addScalar h r k = some (h', r')) :
+    Ext 0 h h' ∧ ArrAt h' r' := by
+  obtain ⟨hv, ht, hax⟩ := hwf _ (List.mem_of_getElem? hx)
+  unfold addScalar at hop
+  rw [hx] at hop
+  simp only [] at hop
+  generalize (readBuf h v w).map (· + k) = cells at hop
+  have he1 : Ext 0 h (alloc h (.buf cells)).1 := Ext.alloc (o := .buf cells) trivial (by simp [refs])
+  have he2 : Ext 0 (alloc h (.buf cells)).1 (alloc (alloc h (.buf cells)).1 (.dict [])).1 :=
+    Ext.alloc (by rw [WFObj_dict]; intro k r he; cases he) (fun _ _ => Nat.zero_le _)
+  have hg : Grows h (alloc (alloc h (.buf cells)).1 (.dict [])).1 := (he1.trans he2).grows
+  exact alloc_arr_res (he1.trans he2) ⟨_, he2.grows.get (get_append_last _ _)⟩ ⟨_, get_append_last _ _⟩
+    (fun a ha => IsAxis.mono hg (hax a ha)) hdim hop
+
+theorem sortAxis_wf {d : Nat} (hwf : WF h) (hx : h[r]? = some (.arr v w sh ax t))
+    (hdim : ax.length = sh.length) (hop : sortAxis h r d = some (h', r')) :
+    Ext 0 h h' ∧ ArrAt h' r' := by
+  obtain ⟨hv, ht, hax⟩ := hwf _ (List.mem_of_getElem? hx)
+  unfold sortAxis at hop
+  rw [hx] at hop
+  simp only [] at hop
+  split at hop
+  · cases hop
+  · simp only [freshBuf_eq] at hop
+    generalize argsortBy _ _ = ps at hop
+    generalize readBuf h v _ = cells at hop
+    rw [foldl_step_eq _ (fun hh i => if i == d then selectAxis hh (ax.getD i 0) ps else deepAxis hh (ax.getD i 0))
+      (fun acc i => rfl)] at hop
+    simp only [List.nil_append] at hop
+    have he1 : Ext 0 h (h ++ [.buf cells]) := Ext.alloc (o := .buf cells) trivial (by simp [refs])
+    have hwf1 := he1.wf hwf
+    obtain ⟨he2, hgood, _, hlen⟩ := mapAccum_heap
+      (fun hh i => if i == d then selectAxis hh (ax.getD i 0) ps else deepAxis hh (ax.getD i 0)) 0
+      (fun hh i => IsAxis hh (ax.getD i 0)) IsAxis (fun _ => ()) (fun _ _ => ())
+      (fun _ _ _ _ hg hp => hp.mono hg) (fun _ _ _ _ hg hb => hb.mono hg) (fun _ _ _ _ _ _ => rfl)
+      (fun hh i hw _ hp => by
+        simp only []
+        split
+        · exact ⟨(selectAxis_spec ps hw hp).1, (selectAxis_spec ps hw hp).2, trivial⟩
+        · obtain ⟨e1, _, e3, _⟩ := deepAxis_spec (n := 0) hw (Nat.zero_le _) hp
+          exact ⟨e1, e3, trivial⟩)
+      (List.range ax.length) _ hwf1 (Nat.zero_le _)
+      (fun i hi => IsAxis.mono he1.grows (hax _ (getD_mem (List.mem_range.mp hi))))
+    generalize mapAccum _ (h ++ [.buf cells]) (List.range ax.length) = A at hop he2 hgood hlen
+    have hwf2 := he2.wf hwf1
+    obtain ⟨he3, hd3⟩ := shallowDict_spec t hwf2
+    generalize shallowDict A.1 t = D at hop he3 hd3
+    refine alloc_arr_res ((he1.trans he2).trans he3) ⟨_, (he2.trans he3).grows.get (get_append_last _ _)⟩ hd3
+      (fun a ha => (hgood a ha).mono he3.grows) (by rw [hlen, List.length_range, hdim]) hop
+
+/-- `copy()`: everything new, new objects refer to new objects, same snapshot -/
+theorem deepCopy_full (hwf : WF h) (hc : deepCopy h r = some (h', r')) :
+    Ext h.length h h' ∧ h.length ≤ r' ∧ r' < h'.length ∧ obsArr h' r' = obsArr h r ∧
+    ∀ v w sh ax t, h[r]? = some (.arr v w sh ax t) →
+      ∃ v' w' ax' t', h'[r']? = some (.arr v' w' sh ax' t') ∧ ax'.length = ax.length := by
+  unfold deepCopy at hc
+  split at hc
+  · next vals view shape axes attrs hx =>
+    obtain ⟨⟨c, hv⟩, ⟨kv0, ht⟩, hax⟩ := hwf _ (List.mem_of_getElem? hx)
+    simp only [freshBuf_eq] at hc
+    generalize hcells : readBuf h vals view = cells at hc
+    have he1 : Ext h.length h (h ++ [.buf cells]) := Ext.alloc (o := .buf cells) trivial (by simp [refs])
+    have hwf1 := he1.wf hwf
+    obtain ⟨he2, hgood, hobs, hlen⟩ := mapAlloc_deepAxis_spec (n := h.length) axes hwf1 he1.grows.le
+      (fun a ha => IsAxis.mono he1.grows (hax a ha))
+    generalize mapAlloc deepAxis (h ++ [.buf cells]) axes = A at hc he2 hgood hobs hlen
+    have hwf2 := he2.wf hwf1
+    have hn2 : h.length ≤ A.1.length := (he1.trans he2).grows.le
+    obtain ⟨he3, hn3, ⟨kv, hd3⟩, ho3⟩ := deepDict_spec (n := h.length) attrs hwf2 hn2
+    generalize deepDict A.1 attrs = D at hc he3 hn3 hd3 ho3
+    have hwf3 := he3.wf hwf2
+    have hbuf : D.1[h.length]? = some (.buf cells) := (he2.trans he3).grows.get (get_append_last _ _)
+    obtain ⟨e1, e2⟩ := alloc_arr_spec (w := List.range cells.length) (sh := shape) ((he1.trans he2).trans he3)
+      ⟨_, hbuf⟩ ⟨_, hd3⟩ (fun a ha => (hgood a ha).2.mono he3.grows) (Nat.le_refl _) hn3
+      (fun a ha => (hgood a ha).1)
+    have hc2 : some (alloc D.1 (.arr h.length (List.range cells.length) shape A.2 D.2)) = some (h', r') := hc
+    simp only [Option.some.injEq] at hc2
+    have h1 : h' = (alloc D.1 (.arr h.length (List.range cells.length) shape A.2 D.2)).1 := by rw [hc2]
+    have h2 : r' = (alloc D.1 (.arr h.length (List.range cells.length) shape A.2 D.2)).2 := by rw [hc2]
+    have hga : Grows D.1 (alloc D.1 (.arr h.length (List.range cells.length) shape A.2 D.2)).1 := Grows.alloc _ _
+    rw [← h1] at e1 hga
+    rw [← h1, ← h2] at e2
+    have hr' : r' = D.1.length := h2
+    have hlen' : h'.length = D.1.length + 1 := by rw [h1]; simp [alloc]
+    have hgD : Grows h D.1 := ((he1.trans he2).trans he3).grows
+    refine ⟨e1, ?_, ?_, ?_, ?_⟩
+    · rw [hr']; exact hgD.le
+    · rw [hr', hlen']; exact Nat.lt_succ_self _
+    · unfold obsArr
+      rw [e2, hx]
+      simp only []
+      rw [readBuf_fresh (hga.get hbuf), hcells]
+      have ea : A.2.map (obsAxis h') = axes.map (obsAxis h) := by
+        have e3 : A.2.map (obsAxis h') = A.2.map (obsAxis A.1) :=
+          List.map_congr_left fun b hb => obsAxis_grows hwf2 (he3.grows.trans hga) (hgood b hb).2.lt
+        have e4 : axes.map (obsAxis (h ++ [.buf cells])) = axes.map (obsAxis h) :=
+          List.map_congr_left fun a ha => obsAxis_grows hwf he1.grows (IsAxis.lt (hax a ha))
+        rw [e3, hobs, e4]
+      rw [ea, obsDict_grows hwf3 hga (lt_of_get hd3), ho3,
+        obsDict_grows hwf (he1.trans he2).grows (lt_of_get ht)]
+    · intro v w sh ax t hx2
+      rw [hx] at hx2
+      cases hx2
+      exact ⟨_, _, _, _, e2, hlen⟩
+  · cases hc
+
+theorem deepCopy_wf (hwf : WF h) (hx : h[r]? = some (.arr v w sh ax t))
+    (hdim : ax.length = sh.length) (hop : deepCopy h r = some (h', r')) :
+    Ext 0 h h' ∧ ArrAt h' r' := by
+  obtain ⟨e1, _, _, _, e5⟩ := deepCopy_full hwf hop
+  obtain ⟨v', w', ax', t', e6, e7⟩ := e5 v w sh ax t hx
+  exact ⟨e1.zero, v', w', sh, ax', t', e6, by rw [e7, hdim]⟩
+
+end Ops
+
+
+/-! ### steps -/
+
+/-- every live array has as many Axis objects as dimensions (extra invariant needed by `wf_step`) -/
+def DimOK (s : St) : Prop :=
+  ∀ r ∈ s.env, ∀ v w sh ax t, s.h[r]? = some (.arr v w sh ax t) → ax.length = sh.length
+
+/-- `create` is given as many axes as dimensions (extra hypothesis needed by `wf_step`) -/
+def OpOK : Op → Prop
+  | .create shape _ axes _ => axes.length = shape.length
+  | _ => True
+
+theorem arrAt_of_env {s : St} (henv : EnvOK s) (hdim : DimOK s) : ∀ r ∈ s.env, ArrAt s.h r := by
+  intro r hr
+  obtain ⟨v, w, sh, ax, t, hx⟩ := henv r hr
+  exact ⟨v, w, sh, ax, t, hx, hdim r hr v w sh ax t hx⟩
+
+theorem env_of_arrAt {s : St} (ha : ∀ r ∈ s.env, ArrAt s.h r) : EnvOK s ∧ DimOK s := by
+  constructor
+  · intro r hr
+    obtain ⟨v, w, sh, ax, t, hx, _⟩ := ha r hr
+    exact ⟨v, w, sh, ax, t, hx⟩
+  · intro r hr v w sh ax t hx
+    obtain ⟨v2, w2, sh2, ax2, t2, hx2, hd⟩ := ha r hr
+    rw [hx] at hx2
+    cases hx2
+    exact hd
+
+theorem ArrAt.mono {h h' : H} {r : Ref} (hg : Grows h h') : ArrAt h r → ArrAt h' r := by
+  rintro ⟨v, w, sh, ax, t, hx, hd⟩
+  exact ⟨v, w, sh, ax, t, hg.get hx, hd⟩
+
+theorem apply_wf {h h' : H} {env : List Ref} {op : Op} {r' : Ref} (hwf : WF h)
+    (henv : ∀ r ∈ env, ArrAt h r) (hok : OpOK op) (hop : apply h env op = some (h', r')) :
+    Ext 0 h h' ∧ ArrAt h' r' := by
+  cases op with
+  | create shape cells axes attrs =>
+    simp only [apply, Option.some.injEq] at hop
+    have := create_spec shape cells axes attrs hwf hok
+    rw [hop] at this
+    exact this
+  | «mut» k m => simp [apply] at hop
+  | copy k =>
+    simp only [apply, Option.bind_eq_some_iff] at hop
+    obtain ⟨q, hq1, hq⟩ := hop
+    obtain ⟨v, w, sh, ax, t, hx, hd⟩ := henv q (List.mem_of_getElem? hq1)
+    exact deepCopy_wf hwf hx hd hq
+  | transpose k perm =>
+    simp only [apply, Option.bind_eq_some_iff] at hop
+    obtain ⟨q, hq1, hq⟩ := hop
+    obtain ⟨v, w, sh, ax, t, hx, hd⟩ := henv q (List.mem_of_getElem? hq1)
+    exact transpose_wf hwf hx hd hq
+  | squeeze k =>
+    simp only [apply, Option.bind_eq_some_iff] at hop
+    obtain ⟨q, hq1, hq⟩ := hop
+    obtain ⟨v, w, sh, ax, t, hx, hd⟩ := henv q (List.mem_of_getElem? hq1)
+    exact squeeze_wf hwf hx hd hq
+  | sliceAll k =>
+    simp only [apply, Option.bind_eq_some_iff] at hop
+    obtain ⟨q, hq1, hq⟩ := hop
+    obtain ⟨v, w, sh, ax, t, hx, hd⟩ := henv q (List.mem_of_getElem? hq1)
+    exact sliceAll_wf hwf hx hd hq
+  | takeScalar k d p =>
+    simp only [apply, Option.bind_eq_some_iff] at hop
+    obtain ⟨q, hq1, hq⟩ := hop
+    obtain ⟨v, w, sh, ax, t, hx, hd⟩ := henv q (List.mem_of_getElem? hq1)
+    exact takeScalar_wf hwf hx hd hq
+  | takeList k d ps =>
+    simp only [apply, Option.bind_eq_some_iff] at hop
+    obtain ⟨q, hq1, hq⟩ := hop
+    obtain ⟨v, w, sh, ax, t, hx, hd⟩ := henv q (List.mem_of_getElem? hq1)
+    exact takeList_wf hwf hx hd hq
+  | addScalar k c =>
+    simp only [apply, Option.bind_eq_some_iff] at hop
+    obtain ⟨q, hq1, hq⟩ := hop
+    obtain ⟨v, w, sh, ax, t, hx, hd⟩ := henv q (List.mem_of_getElem? hq1)
+    exact addScalar_wf hwf hx hd hq
+  | sortAxis k d =>
+    simp only [apply, Option.bind_eq_some_iff] at hop
+    obtain ⟨q, hq1, hq⟩ := hop
+    obtain ⟨v, w, sh, ax, t, hx, hd⟩ := henv q (List.mem_of_getElem? hq1)
+    exact sortAxis_wf hwf hx hd hq
+
+theorem step_nonmut {s : St} {op : Op} (hnm : isMut op = false) :
+    step s op = match apply s.h s.env op with
+      | some (h', r) => { h := h', env := s.env ++ [r] }
+      | none => s := by
+  cases op <;> first | rfl | (simp [isMut] at hnm)
+
+theorem step_mut (s : St) (k : Nat) (m : Mut) :
+    step s (.mut k m) = match s.env[k]? with
+      | some r => { s with h := mutate s.h r m }
+      | none => s := rfl
+
+/-- a non-in-place step only allocates and keeps the environment as a prefix -/
+theorem step_nonmut_grows {s : St} {op : Op} (hnm : isMut op = false) :
+    Grows s.h (step s op).h ∧ ∃ e, (step s op).env = s.env ++ e := by
+  rw [step_nonmut hnm]
+  cases hx : apply s.h s.env op with
+  | none => exact ⟨Grows.refl _, [], by simp⟩
+  | some p => exact ⟨(apply_grows hx).1, [p.2], rfl⟩
+
+theorem step_inv {s : St} {op : Op} (hwf : WF s.h) (henv : ∀ r ∈ s.env, ArrAt s.h r) (hok : OpOK op) :
+    WF (step s op).h ∧ ∀ r ∈ (step s op).env, ArrAt (step s op).h r := by
+  cases hm : isMut op with
+  | false =>
+    rw [step_nonmut hm]
+    cases hx : apply s.h s.env op with
+    | none => exact ⟨hwf, henv⟩
+    | some p =>
+      obtain ⟨he, ha⟩ := apply_wf hwf henv hok hx
+      refine ⟨he.wf hwf, ?_⟩
+      intro r hr
+      simp only [List.mem_append, List.mem_singleton] at hr
+      rcases hr with hr | rfl
+      · exact (henv r hr).mono he.grows
+      · exact ha
+  | true =>
+    cases op with
+    | «mut» k m =>
+      rw [step_mut]
+      cases hx : s.env[k]? with
+      | none => exact ⟨hwf, henv⟩
+      | some q =>
+        refine ⟨mutate_wf hwf q m, ?_⟩
+        intro r hr
+        obtain ⟨v, w, sh, ax, t, hx2, hd⟩ := henv r hr
+        exact ⟨v, w, sh, ax, t, mutate_arr q m hx2, hd⟩
+    | _ => simp [isMut] at hm
+
+theorem run_nil (s : St) : run s [] = s := rfl
+theorem run_cons (s : St) (op : Op) (ops : List Op) : run s (op :: ops) = run (step s op) ops := rfl
+
+theorem run_inv (ops : List Op) : ∀ {s : St}, WF s.h → (∀ r ∈ s.env, ArrAt s.h r) → (∀ op ∈ ops, OpOK op) →
+    WF (run s ops).h ∧ ∀ r ∈ (run s ops).env, ArrAt (run s ops).h r := by
+  induction ops with
+  | nil => intro s hwf henv _; exact ⟨hwf, henv⟩
+  | cons op ops ih =>
+    intro s hwf henv hok
+    rw [run_cons]
+    obtain ⟨h1, h2⟩ := step_inv hwf henv (hok op (List.mem_cons_self ..))
+    exact ih h1 h2 (fun o ho => hok o (List.mem_cons_of_mem _ ho))
+
+theorem run_nonmut_grows (ops : List Op) : ∀ {s : St}, (∀ op ∈ ops, isMut op = false) →
+    Grows s.h (run s ops).h := by
+  induction ops with
+  | nil => intro s _; exact Grows.refl _
+  | cons op ops ih =>
+    intro s hnm
+    rw [run_cons]
+    exact (step_nonmut_grows (hnm op (List.mem_cons_self ..))).1.trans
+      (ih (fun o ho => hnm o (List.mem_cons_of_mem _ ho)))
+
+
 end Heap
 end DimModel
